@@ -1,557 +1,1275 @@
 /*
  * C16 - bit-counting helpers equal their mathematical definitions on all inputs.
  *
- * One source, two binaries (see bin/checks.d/C16.py):
+ * This file is the harness proper: it enumerates arguments, judges results and writes the evidence. It never includes
+ * a librfn header. The calls of bitcnt / clz / ctz / ilog2 and the expansions of const_pop / const_lssb live in the
+ * "user" unit c16_user.c (see c16_user.h), which includes only the public headers, as a user of the library does;
+ * bitops.c is linked as a separate object (lib=['bitops.c'] in bin/checks.d/C16.py).
  *
- *   -DC16_PART_FUNCS   bitcnt, clz, ctz, ilog2 of the real bitops.c for ALL 2^32
- *                      arguments (ilog2: all x > 0) against the compiler builtins
- *                      (which are themselves cross-checked against naive bit loops
- *                      at start-up).
- *   -DC16_PART_MACROS  const_pop / const_lssb of the real constexpr.h
- *                      (a) evaluated at run time on every 1-,2-,3-(4-)bit pattern,
- *                          every contiguous mask and their complements,
- *                      (b) evaluated at run time on eight "lanes": one 32-bit half
- *                          sweeps, the other half is one of {0,1,0x80000000,~0},
- *                      (c) evaluated by the compiler: a table generated by the
- *                          prebuild hook (c16_table.inc) whose initialisers are
- *                          const_pop(K) / const_lssb(K) for literal K - compared
- *                          with the definition AND with the run-time evaluation
- *                          of the same K read through a volatile.
+ * One source, three kinds of binary:
+ *   -DC16_PART_FUNCS   (c16f) the four functions: ALL 2^32 arguments through the plain call, all 2^32 through pointers
+ *                      to the functions when the header makes a name a macro (else a structured subset), and the
+ *                      argument-form families: run-time values of every integer type, operator expressions written
+ *                      without parentheses, a generated table of constant-expression arguments.
+ *   -DC16_PART_MACROS  (c16m) const_pop / const_lssb: structured 64-bit patterns and lanes at run time, the same
+ *                      argument-form families, and the generated table evaluated by the compiler in static initialisers
+ *                      (compared with the definition and with the run-time value).
+ *   -DC16_PART_ILP32   (c16i) both of the above for an ILP32 build of the library (gcc -m32): the compile-time table is
+ *                      read back from the object file without running it; everything else is evaluated by the libc-free
+ *                      helper c16_ilp32.c, which this part drives through a pipe (no lanes: run-time 64-bit patterns only).
  *
- * Signatures always name the first failing case in a canonical order that does
- * not depend on the worker partition (functions: smallest x; macros: first
- * failing structured pattern / table entry), so one defect gives the same few
- * signatures on every run.
+ * Signatures name the first failing case of a family in its canonical order (independent of the worker partition).
  */
 #include "vx.h"
+#include <errno.h>
+#include <poll.h>
+#include <sys/wait.h>
 
-#include "bitops.c"
-#include "librfn/constexpr.h"
+#include "c16_judge.h"
 
-#if !defined(C16_PART_FUNCS) && !defined(C16_PART_MACROS)
-#error "build with -DC16_PART_FUNCS or -DC16_PART_MACROS"
+#if defined(__GNUC__) && !defined(__clang__) && !defined(__OPTIMIZE__)
+/* the -O0 build variant is about the library and the user unit (separate objects); judging 2^32 results need not crawl.
+ * (After the includes: the pragma also defines __OPTIMIZE__, which c16_user.h uses to tell a variant build.) */
+#pragma GCC optimize("O2")
 #endif
 
-/* ------------------------------------------------ reference (the definitions) */
+#if !defined(C16_PART_FUNCS) && !defined(C16_PART_MACROS) && !defined(C16_PART_ILP32)
+#error "build with -DC16_PART_FUNCS, -DC16_PART_MACROS or -DC16_PART_ILP32"
+#endif
+#if defined(C16_PART_FUNCS) || defined(C16_PART_ILP32)
+#define C16_DO_FUNCS 1
+#endif
+#if defined(C16_PART_MACROS) || defined(C16_PART_ILP32)
+#define C16_DO_MACROS 1
+#endif
 
-static inline int ref_pop32(uint32_t x) { return __builtin_popcount(x); }
-static inline int ref_clz32(uint32_t x) { return x ? __builtin_clz(x) : 32; }
-static inline int ref_ctz32(uint32_t x) { return x ? __builtin_ctz(x) : 32; }
-static inline int ref_ilog2(uint32_t x) { return 31 - __builtin_clz(x); }	/* x > 0 */
-static inline int ref_pop64(uint64_t c) { return __builtin_popcountll(c); }
-static inline int ref_lssb64(uint64_t c) { return c ? __builtin_ctzll(c) : -1; }
+_Static_assert(sizeof(struct c16_item) == 32 && sizeof(struct c16_res) == 48 && sizeof(struct c16_req) == 24 &&
+	       sizeof(struct c16_reply) == 128 && sizeof(struct c16_sweep_out) == 36112, "wire format");
 
-/* the definitions spelled out bit by bit; used only to validate the builtins */
-static int naive_pop(uint64_t c, int w) { int n = 0; for (int i = 0; i < w; i++) n += (int)((c >> i) & 1); return n; }
-static int naive_ctz(uint64_t c, int w) { int n = 0; while (n < w && !((c >> n) & 1)) n++; return n; }
-static int naive_clz(uint64_t c, int w) { int n = 0; while (n < w && !((c >> (w - 1 - n)) & 1)) n++; return n; }
+static const char *const c16_fname[C16_NF] = { "bitcnt", "clz", "ctz", "ilog2" };
+static const char *const c16_mname[C16_NM] = { "const_pop", "const_lssb" };
+static const char *const c16_tname[C16_NTYPES] = {
+#define C16_X(I, NAME, T) [I] = #NAME,
+	C16_TYPES(C16_X)
+#undef C16_X
+};
+static const char *const c16_etext[C16_NEXPRS] = {
+#define C16_X(I, E) [I] = #E,
+	C16_EXPRS(C16_X)
+#undef C16_X
+};
+static const char *const c16_otname[] = {
+#define C16_X(I, T) [I] = #T,
+	C16_OPTYPES(C16_X)
+#undef C16_X
+};
+static const unsigned c16_otbits[] = { 8, 32, 64 };
 
-static uint64_t selfcheck_n;
-static void selfcheck32(uint32_t x)
+/* ILP32: counters and signatures carry the build they belong to, like the driver's build variants */
+#ifdef C16_PART_ILP32
+#ifndef C16_ILP32_OPT
+#define C16_ILP32_OPT "-O2"
+#endif
+#define C16_TAG " [gcc -m32 " C16_ILP32_OPT "]"
+#define C16_SIGTAG "[gcc -m32 " C16_ILP32_OPT "] "
+#define C16_ABI "ILP32 (gcc -m32 " C16_ILP32_OPT ")"
+#else
+#define C16_TAG ""
+#define C16_SIGTAG ""
+#define C16_ABI "LP64"
+#endif
+static void c16_count(const char *name, uint64_t v) { char nm[160]; snprintf(nm, sizeof(nm), "%s%s", name, C16_TAG); vx_count(nm, v); }
+static void c16_max(const char *name, uint64_t v) { char nm[160]; snprintf(nm, sizeof(nm), "%s%s", name, C16_TAG); vx_max(nm, v); }
+
+static void c16_selfcheck(void)
 {
-	selfcheck_n++;
-	if (ref_pop32(x) != naive_pop(x, 32) || ref_clz32(x) != naive_clz(x, 32) || ref_ctz32(x) != naive_ctz(x, 32) ||
-	    (x && ref_ilog2(x) != 31 - naive_clz(x, 32))) {
-		fprintf(stderr, "c16: reference self-check failed for x=0x%08x\n", x); _exit(3);
-	}
-}
-static void selfcheck64(uint64_t c)
-{
-	selfcheck_n++;
-	int l = naive_ctz(c, 64);
-	if (ref_pop64(c) != naive_pop(c, 64) || ref_lssb64(c) != (l == 64 ? -1 : l)) {
-		fprintf(stderr, "c16: reference self-check failed for c=0x%016llx\n", (unsigned long long)c); _exit(3);
-	}
-}
-static void selfcheck(void)
-{
-	for (uint32_t v = 0; v < 0x10000; v++) {
-		selfcheck32(v); selfcheck32(v << 16); selfcheck32(v * 0x10001u); selfcheck32(~v);
-		selfcheck64(v); selfcheck64((uint64_t)v << 48); selfcheck64((uint64_t)v << 24); selfcheck64(~(uint64_t)v << 16);
-	}
-	for (int i = 0; i < 64; i++) for (int j = i; j < 64; j++) {
-		uint64_t c = (1ULL << i) | (1ULL << j);
-		selfcheck64(c); selfcheck64(~c);
-		if (j < 32) { selfcheck32((uint32_t)c); selfcheck32(~(uint32_t)c); }
-	}
-	vx_count("reference_selfcheck_cases", selfcheck_n);
+	uint64_t bad = 0;
+	if (c16j_selfcheck(&bad)) { fprintf(stderr, "c16: reference self-check failed for 0x%016llx\n", (unsigned long long)bad); _exit(3); }
+	vx_count("reference_selfcheck_cases", c16j_selfcheck_n);
 }
 
-/* ========================================================== part: functions */
+/* exact value of a result: 128 bits hold every c16_pair */
+static inline __int128 c16_wide_of(c16_pair p) { return p.neg ? (__int128)(long long)p.bits : (__int128)p.bits; }
+/* how a value is named in a signature: itself when it could be a bit count or an index, else "out-of-range" - a value
+ * that far off is usually indeterminate (a builtin with an undefined result, a stale register) and must not make the
+ * signature differ from run to run; the message gives the number */
+static const char *c16_got(__int128 w, char buf[48])
+{
+	if (w >= -64 && w <= 128) snprintf(buf, 48, "%d", (int)w);
+	else snprintf(buf, 48, "out-of-range");
+	return buf;
+}
+static const char *c16_num(__int128 w, char buf[48])
+{
+	if (w < 0) snprintf(buf, 48, "-%llu", (unsigned long long)(-w));
+	else if (w >> 64) snprintf(buf, 48, "2^64+%llu", (unsigned long long)w);
+	else snprintf(buf, 48, "%llu", (unsigned long long)w);
+	return buf;
+}
+
+/* =========================================================================================== the evaluator
+ * ev_items(): evaluate n items (c16_user.h) - locally in the user unit linked into this binary, or in the ILP32 helper.
+ * A fault (failed assert, signal, endless loop) inside an item comes back as status C16_S_FAULT with the kind in aux. */
+static uint64_t ev_faults, ev_hangs;
+static int ev_abandoned;			/* too many hangs / helper failures: stop enumerating, the run is incomplete */
+static char ev_last_fault[256];
+
+#ifndef C16_PART_ILP32
+/* ------------------------------------------------------------------ local */
+static void ev_local_one(const struct c16_item *it, struct c16_res *r)
+{
 #ifdef C16_PART_FUNCS
-
-enum { F_BITCNT, F_CLZ, F_CTZ, F_ILOG2, NF };
-static const char *fname[NF] = { "bitcnt", "clz", "ctz", "ilog2" };
-
-static inline int call_f(int f, uint32_t x)
+	c16u_f_item(it, r);
+#else
+	c16u_m_item(it, r);
+#endif
+}
+static void ev_items(const struct c16_item *it, struct c16_res *rs, unsigned n)
 {
-	switch (f) {
-	case F_BITCNT: return bitcnt(x);
-	case F_CLZ: return clz(x);
-	case F_CTZ: return ctz(x);
-	default: return ilog2(x);
+	if (ev_abandoned) { for (unsigned i = 0; i < n; i++) rs[i].status = C16_S_NONE; return; }
+	if (n > 1) {
+		if (VX_TRY) { for (unsigned i = 0; i < n; i++) ev_local_one(&it[i], &rs[i]); VX_END; return; }
+		VX_END;
+		vx_lib_reset();
+	}
+	for (volatile unsigned i = 0; i < n; i++) {	/* a fault somewhere in the batch: again, one by one */
+		if (ev_abandoned) { rs[i].status = C16_S_NONE; continue; }
+		if (VX_TRY) { ev_local_one(&it[i], &rs[i]); VX_END; continue; }
+		VX_END;
+		vx_lib_reset();
+		rs[i].status = C16_S_FAULT; rs[i].aux = (uint32_t)vx_fault_kind;
+		rs[i].v[1].neg = 1;	/* rs[i].c is valid: the user unit stores the argument before it makes the call */
+		snprintf(ev_last_fault, sizeof(ev_last_fault), "%s", vx_fault_msg);
+		ev_faults++;
+		if (vx_fault_kind == VX_FAULT_HANG && ++ev_hangs >= 3) ev_abandoned = 1;
 	}
 }
-static inline int want_f(int f, uint32_t x)
+static void ev_type_info(unsigned t, unsigned *bits, int *is_signed)
 {
-	switch (f) {
-	case F_BITCNT: return ref_pop32(x);
-	case F_CLZ: return ref_clz32(x);
-	case F_CTZ: return ref_ctz32(x);
-	default: return ref_ilog2(x);
+	switch (t) {
+#define C16_X(I, NAME, T) case I: *bits = 8 * sizeof(T); *is_signed = (T)-1 < 0; break;
+	C16_TYPES(C16_X)
+#undef C16_X
+	default: *bits = 0; *is_signed = 0;
 	}
 }
-static inline int in_scope(int f, uint32_t x) { return f != F_ILOG2 || x != 0; }
+static void ev_start(void) {}
+static void ev_stop(void) {}
 
-/* one call under its own fault capture: returns the fault kind (0 = returned) */
-static volatile int one_got;
-static int eval_one(int f, uint32_t x, int *got)
+#else
+/* ------------------------------------------------------------------ remote: the ILP32 helper on a pipe */
+#ifndef C16_ILP32_BIN
+#error "C16_PART_ILP32 needs -DC16_ILP32_BIN=\"path of the helper\""
+#endif
+static pid_t rem_pid = -1;
+static int rem_to = -1, rem_from = -1;
+static uint64_t rem_spawns;
+static int rem_unusable;		/* the helper cannot be run at all (no 32-bit execution here): the part is left out */
+
+static void ev_stop(void)
 {
-	if (VX_TRY) { one_got = call_f(f, x); VX_END; *got = one_got; return 0; }
-	VX_END;
-	return vx_fault_kind;
+	if (rem_to >= 0) close(rem_to);
+	if (rem_from >= 0) close(rem_from);
+	rem_to = rem_from = -1;
+	if (rem_pid > 0) { int st; kill(rem_pid, SIGKILL); while (waitpid(rem_pid, &st, 0) < 0 && errno == EINTR) {} }
+	rem_pid = -1;
 }
-static int bad_one(int f, uint32_t x)
+static void ev_start(void)
 {
-	int got, k = eval_one(f, x, &got);
-	return k || got != want_f(f, x);
-}
-
-#define CHUNK_LOG2 16
-#define BLOCK_LOG2 24
-#define NBLOCKS (1u << (32 - BLOCK_LOG2))
-
-static uint64_t calls[NF], bad[NF], faults[NF];
-static uint8_t seen[33 * 33 * 33];		/* (pop, clz, ctz) of the current block */
-static uint64_t distinct_tagged;
-static uint8_t seen_all[33 * 33 * 33]; static uint64_t distinct_untagged;
-
-/* all four functions on one chunk, no fault capture inside (the caller arms it) */
-static void run_chunk(uint32_t base)
-{
-	uint32_t x = base;
-	for (uint32_t i = 0; i < (1u << CHUNK_LOG2); i++, x++) {
-		int p = bitcnt(x), l = clz(x), t = ctz(x);
-		int wp = ref_pop32(x), wl = ref_clz32(x), wt = ref_ctz32(x);
-		int ok = 1;
-		if (p != wp) { bad[F_BITCNT]++; ok = 0; }
-		if (l != wl) { bad[F_CLZ]++; ok = 0; }
-		if (t != wt) { bad[F_CTZ]++; ok = 0; }
-		if (x) {
-			int g = ilog2(x);
-			if (g != 31 - wl) { bad[F_ILOG2]++; ok = 0; }
-		}
-		if (ok) {
-			unsigned idx = ((unsigned)wp * 33 + (unsigned)wl) * 33 + (unsigned)wt;
-			if (!seen[idx]) { seen[idx] = 1; distinct_tagged++; }
-		}
+	int a[2], b[2];
+	ev_stop();
+	if (rem_unusable) return;
+	if (access(C16_ILP32_BIN, X_OK) != 0) { rem_unusable = 1; return; }
+	if (pipe(a) || pipe(b)) { perror("c16: pipe"); _exit(3); }
+	rem_pid = fork();
+	if (rem_pid < 0) { perror("c16: fork"); _exit(3); }
+	if (rem_pid == 0) {
+		struct itimerval off; memset(&off, 0, sizeof(off)); setitimer(ITIMER_REAL, &off, NULL);
+		dup2(a[0], 0); dup2(b[1], 1);
+		close(a[0]); close(a[1]); close(b[0]); close(b[1]);
+		execl(C16_ILP32_BIN, C16_ILP32_BIN, (char *)NULL);
+		_exit(127);
 	}
+	close(a[0]); close(b[1]);
+	rem_to = a[1]; rem_from = b[0];
+	rem_spawns++;
 }
-/* the same chunk, every call under its own fault capture (after a fault in run_chunk) */
-static void run_chunk_slow(uint32_t base)
+static int rem_write(const void *p, size_t n)
 {
-	for (uint32_t i = 0; i < (1u << CHUNK_LOG2); i++) {
-		uint32_t x = base + i;
-		for (int f = 0; f < NF; f++) {
-			if (!in_scope(f, x)) continue;
-			int got, k = eval_one(f, x, &got);
-			if (k) { faults[f]++; bad[f]++; }
-			else if (got != want_f(f, x)) bad[f]++;
-		}
-	}
-}
-
-/* smallest x (over the WHOLE space, not this worker's share) on which f is wrong */
-static volatile uint32_t scan_hit; static volatile int scan_found;
-static void scan_chunk(int f, uint32_t base)
-{
-	for (uint32_t i = 0; i < (1u << CHUNK_LOG2); i++) {
-		uint32_t x = base + i;
-		if (!in_scope(f, x)) continue;
-		if (call_f(f, x) != want_f(f, x)) { scan_hit = x; scan_found = 1; return; }
-	}
-}
-static int first_bad(int f, uint32_t *out)
-{
-	for (uint64_t base = 0; base < (1ULL << 32); base += 1u << CHUNK_LOG2) {
-		scan_found = 0;
-		if (VX_TRY) { scan_chunk(f, (uint32_t)base); VX_END; }
-		else {
-			VX_END;
-			for (uint32_t i = 0; i < (1u << CHUNK_LOG2); i++) {
-				uint32_t x = (uint32_t)base + i;
-				if (in_scope(f, x) && bad_one(f, x)) { scan_hit = x; scan_found = 1; break; }
-			}
-		}
-		if (scan_found) { *out = scan_hit; return 1; }
+	const char *c = p;
+	while (n) {
+		ssize_t r = write(rem_to, c, n);
+		if (r < 0 && errno == EINTR) continue;
+		if (r <= 0) return -1;
+		c += r; n -= (size_t)r;
 	}
 	return 0;
 }
-
-/* evaluate (f, x) and record a violation if it is wrong; returns 1 if so */
-static int report(int f, uint32_t x)
+static int rem_read(void *p, size_t n)
 {
-	char sig[256], rep[128];
-	int got = 0, k = eval_one(f, x, &got), want = want_f(f, x);
-	if (!k && got == want) return 0;
-	snprintf(rep, sizeof(rep), "kind=func\nf=%s\nx=0x%08x\n", fname[f], x);
-	if (k) {
-		snprintf(sig, sizeof(sig), "func|%s|x=0x%08x|fault|want=%d", fname[f], x, want);
-		vx_violation(sig, rep, "%s(0x%08x) does not return: %s; the definition gives %d (0x%08x is the smallest failing argument)",
-			     fname[f], x, vx_fault_msg, want, x);
-	} else {
-		snprintf(sig, sizeof(sig), "func|%s|x=0x%08x|got=%d|want=%d", fname[f], x, got, want);
-		vx_violation(sig, rep, "%s(0x%08x) returns %d, the definition gives %d (0x%08x is the smallest failing argument)",
-			     fname[f], x, got, want, x);
+	char *c = p;
+	while (n) {
+		struct pollfd pf = { rem_from, POLLIN, 0 };
+		int pr = poll(&pf, 1, 600 * 1000);	/* the helper has a CPU-time watchdog of its own; this is the last resort */
+		if (pr < 0 && errno == EINTR) continue;
+		if (pr <= 0) return -1;
+		ssize_t r = read(rem_from, c, n);
+		if (r < 0 && errno == EINTR) continue;
+		if (r <= 0) return -1;
+		c += r; n -= (size_t)r;
+	}
+	return 0;
+}
+/* one request; 0 = payload read, 1 = the helper reported a fault (rep), -1 = the helper died without saying why */
+static int rem_request(const struct c16_req *rq, const void *items, size_t isz, void *payload, size_t psz, struct c16_reply *rep)
+{
+	if (rem_pid <= 0) ev_start();
+	if (rem_pid <= 0) return -1;
+	memset(rep, 0, sizeof(*rep));
+	if (rem_write(rq, sizeof(*rq)) || (isz && rem_write(items, isz)) || rem_read(rep, sizeof(*rep))) { ev_stop(); return -1; }
+	if (rep->status) { rep->msg[sizeof(rep->msg) - 1] = 0; ev_stop(); return 1; }
+	if (rem_read(payload, psz)) { ev_stop(); return -1; }
+	return 0;
+}
+static int rem_dead;			/* requests that ended without a reply */
+static void rem_died(void)
+{
+	if (++rem_dead >= 3) { ev_abandoned = 1; if (rem_spawns <= 3) rem_unusable = 1; }
+}
+#define REM_BATCH 4096
+static void ev_items(const struct c16_item *it, struct c16_res *rs, unsigned n)
+{
+	static struct c16_item buf[REM_BATCH];
+	for (unsigned off = 0; off < n; off += REM_BATCH) {
+		unsigned m = n - off < REM_BATCH ? n - off : REM_BATCH;
+		static uint8_t faulted[REM_BATCH]; static uint32_t fkind[REM_BATCH];
+		memcpy(buf, it + off, m * sizeof(buf[0]));
+		memset(faulted, 0, m);
+		for (;;) {
+			struct c16_req rq = { C16_RQ_ITEMS, m, 0, 0 };
+			struct c16_reply rep;
+			if (ev_abandoned) { for (unsigned i = 0; i < m; i++) rs[off + i].status = C16_S_NONE; break; }
+			int k = rem_request(&rq, buf, m * sizeof(buf[0]), rs + off, m * sizeof(rs[0]), &rep);
+			if (k == 0) break;
+			if (k < 0) { rem_died(); continue; }
+			if (rep.index >= m) { fprintf(stderr, "c16: ILP32 helper: %s\n", rep.msg); _exit(3); }
+			faulted[rep.index] = 1; fkind[rep.index] = rep.status; buf[rep.index].kind = C16_K_NOP;
+			snprintf(ev_last_fault, sizeof(ev_last_fault), "%s", rep.msg);
+			ev_faults++;
+			if (rep.status == VX_FAULT_HANG && ++ev_hangs >= 3) ev_abandoned = 1;
+			if (ev_faults >= 200) ev_abandoned = 1;	/* every fault costs a new process */
+		}
+		for (unsigned i = 0; i < m; i++) if (faulted[i]) { rs[off + i].status = C16_S_FAULT; rs[off + i].aux = fkind[i]; }
+	}
+}
+static void ev_type_info(unsigned t, unsigned *bits, int *is_signed)
+{
+	struct c16_item it = { C16_K_INFO_TYPE, t, 0, 0, 0, 0 };
+	struct c16_res r;
+	ev_items(&it, &r, 1);
+	if (r.status != C16_S_OK) { *bits = 0; *is_signed = 0; return; }
+	*bits = (unsigned)r.c; *is_signed = (int)r.v[0].neg;
+}
+#endif
+
+/* =========================================================================================== items: judge, report */
+static int c16_is_f(uint32_t kind) { return kind >= C16_K_F_U32 && kind <= C16_K_F_CONST; }
+static int c16_is_m(uint32_t kind) { return kind >= C16_K_M_U64 && kind <= C16_K_M_OP; }
+
+/* the generated constant-argument tables as the harness sees them: the text of the argument and what the generator
+ * (Python) says its value, popcount and lowest set bit are */
+#ifdef C16_DO_FUNCS
+struct c16_fmeta { const char *text; uint32_t x; };
+static const struct c16_fmeta c16_fmeta[] = {
+#define C16_FC(ID, E, X) { #E, X },
+#define C16_FC0(ID, E) { #E, 0 },
+#include C16_FTAB_INC
+#undef C16_FC
+#undef C16_FC0
+	{ NULL, 0 }
+};
+#define C16_NFMETA (sizeof(c16_fmeta) / sizeof(c16_fmeta[0]) - 1)
+#endif
+#ifdef C16_DO_MACROS
+struct c16_mmeta { const char *text; uint64_t c; int py[C16_NM]; };
+static const struct c16_mmeta c16_mmeta[] = {
+#define C16_K(E, C, P, L) { #E, C, { P, L } },
+#include C16_MTAB_INC
+#undef C16_K
+	{ NULL, 0, { 0, 0 } }
+};
+#define C16_NMMETA (sizeof(c16_mmeta) / sizeof(c16_mmeta[0]) - 1)
+#endif
+
+struct verdict { int judged, nres; int bad[C16_NM]; int fault; __int128 got[C16_NM]; int want[C16_NM]; };
+
+static void c16_internal(const char *what, const struct c16_item *it, const struct c16_res *r)
+{
+	fprintf(stderr, "c16: internal error: %s (kind=%u idx=%u f=%u a=0x%llx b=0x%llx -> status=%u c=0x%llx)\n", what, it->kind, it->idx,
+		it->f, (unsigned long long)it->a, (unsigned long long)it->b, r->status, (unsigned long long)r->c);
+	_exit(3);
+}
+/* 1 = the item violates the statement, 0 = it does not (or is outside it: v->judged == 0) */
+static int judge_item(const struct c16_item *it, const struct c16_res *r, struct verdict *v)
+{
+	memset(v, 0, sizeof(*v));
+	if (r->status == C16_S_SKIP || r->status == C16_S_NONE) return 0;
+	v->judged = 1;
+	if (c16_is_f(it->kind)) {
+		v->nres = 1;
+		if (r->status == C16_S_FAULT) {
+			/* the argument is known for the plain forms; for expressions it is not needed to call a fault a fault,
+			 * except that ilog2(0) is outside the statement: those are never sent (the user unit checks first) */
+			v->fault = (int)r->aux; v->bad[0] = 1;
+			v->want[0] = (it->kind == C16_K_F_U32 || it->kind == C16_K_F_PTR || it->kind == C16_K_F_TYPED) ?
+				c16j_want_f(it->f, (uint32_t)it->a) : -999;
+			return 1;
+		}
+		if (r->c >> 32) c16_internal("function argument wider than 32 bits", it, r);
+		if ((it->kind == C16_K_F_U32 || it->kind == C16_K_F_PTR || it->kind == C16_K_F_TYPED) && r->c != it->a)
+			c16_internal("the user unit saw another argument", it, r);
+#ifdef C16_DO_FUNCS
+		if (it->kind == C16_K_F_CONST && (it->idx >= C16_NFMETA || r->c != c16_fmeta[it->idx].x))
+			c16_internal("generator and compiler disagree on the value of a constant argument", it, r);
+#endif
+		if (it->f == C16_F_ILOG2 && !r->c) c16_internal("ilog2(0) was called", it, r);
+		v->want[0] = c16j_want_f(it->f, (uint32_t)r->c);
+		v->got[0] = c16_wide_of(r->v[0]);
+		v->bad[0] = v->got[0] != v->want[0];
+		return v->bad[0];
+	}
+	if (c16_is_m(it->kind)) {
+		v->nres = C16_NM;
+		if (r->status == C16_S_FAULT) { v->fault = (int)r->aux; v->bad[0] = v->bad[1] = 1; v->want[0] = v->want[1] = -999; return 1; }
+		if ((it->kind == C16_K_M_U64 || it->kind == C16_K_M_TYPED) && r->c != it->a)
+			c16_internal("the user unit saw another argument", it, r);
+		v->want[C16_M_POP] = c16j_pop64(r->c); v->want[C16_M_LSSB] = c16j_lssb64(r->c);
+		for (int m = 0; m < C16_NM; m++) { v->got[m] = c16_wide_of(r->v[m]); v->bad[m] = v->got[m] != v->want[m]; }
+		return v->bad[0] || v->bad[1];
+	}
+	v->judged = 0;
+	return 0;
+}
+
+/* the case in words / as a signature stem */
+static void describe_item(const struct c16_item *it, int m, char *sig, size_t ssz, char *txt, size_t tsz)
+{
+	unsigned ot = it->idx / C16_NEXPRS, e = it->idx % C16_NEXPRS;
+	unsigned long long a = it->a, b = it->b;
+	const char *fn = it->f < C16_NF ? c16_fname[it->f] : "?", *mn = c16_mname[m ? 1 : 0];
+	switch (it->kind) {
+	case C16_K_F_U32:
+		snprintf(sig, ssz, "func|%s|x=0x%08llx", fn, a);
+		snprintf(txt, tsz, "%s(x) with uint32_t x = 0x%08llx", fn, a); break;
+	case C16_K_F_PTR:
+		if (b) {
+			snprintf(sig, ssz, "func-ptr|%s|x=0x%08llx|registers=%s", fn, a, b == 1 ? "0xa5.." : b == 2 ? "0" : "~0");
+			snprintf(txt, tsz, "(*p)(0x%08llx) with p = &%s (the out-of-line function), called with every caller-saved register holding %s",
+				 a, fn, b == 1 ? "0xa5a5..a5" : b == 2 ? "0" : "all ones");
+			break;
+		}
+		snprintf(sig, ssz, "func-ptr|%s|x=0x%08llx", fn, a);
+		snprintf(txt, tsz, "(*p)(0x%08llx) with p = &%s (the out-of-line function)", a, fn); break;
+	case C16_K_F_TYPED:
+		snprintf(sig, ssz, "func-typed|%s|type=%s|x=0x%llx", fn, it->idx < C16_NTYPES ? c16_tname[it->idx] : "?", a);
+		snprintf(txt, tsz, "%s(x) with %s x = 0x%llx", fn, it->idx < C16_NTYPES ? c16_tname[it->idx] : "?", a); break;
+	case C16_K_F_OP:
+		snprintf(sig, ssz, "func-expr|%s(%s)|operands=%s|a=0x%llx|b=0x%llx", fn, c16_etext[e], ot < 3 ? c16_otname[ot] : "?", a, b);
+		snprintf(txt, tsz, "%s(%s) with %s a = 0x%llx, b = 0x%llx (s = b mod %u, q = b & 1)", fn, c16_etext[e],
+			 ot < 3 ? c16_otname[ot] : "?", a, b, ot < 3 && c16_otbits[ot] >= 32 ? c16_otbits[ot] : 16); break;
+#ifdef C16_DO_FUNCS
+	case C16_K_F_CONST:
+		snprintf(sig, ssz, "func-const|%s(%s)", fn, it->idx < C16_NFMETA ? c16_fmeta[it->idx].text : "?");
+		snprintf(txt, tsz, "%s(%s)", fn, it->idx < C16_NFMETA ? c16_fmeta[it->idx].text : "?"); break;
+#endif
+	case C16_K_M_U64:
+		snprintf(sig, ssz, "macro|%s|runtime|c=0x%016llx", mn, a);
+		snprintf(txt, tsz, "%s(c) evaluated at run time for uint64_t c = 0x%016llx", mn, a); break;
+	case C16_K_M_TYPED:
+		snprintf(sig, ssz, "macro|%s|runtime-typed|type=%s|c=0x%llx", mn, it->idx < C16_NTYPES ? c16_tname[it->idx] : "?", a);
+		snprintf(txt, tsz, "%s(x) evaluated at run time for %s x = 0x%llx", mn, it->idx < C16_NTYPES ? c16_tname[it->idx] : "?", a); break;
+	case C16_K_M_OP:
+		snprintf(sig, ssz, "macro|%s(%s)|runtime-expr|operands=%s|a=0x%llx|b=0x%llx", mn, c16_etext[e], ot < 3 ? c16_otname[ot] : "?", a, b);
+		snprintf(txt, tsz, "%s(%s) evaluated at run time with %s a = 0x%llx, b = 0x%llx (s = b mod %u, q = b & 1)", mn, c16_etext[e],
+			 ot < 3 ? c16_otname[ot] : "?", a, b, ot < 3 && c16_otbits[ot] >= 32 ? c16_otbits[ot] : 16); break;
+	default:
+		snprintf(sig, ssz, "item|%u", it->kind); snprintf(txt, tsz, "item of kind %u", it->kind);
+	}
+}
+
+/* evaluate one item again (three times: an indeterminate result must not end up in the signature) and record what is
+ * wrong with it; returns 1 if something was */
+static int report_item(const struct c16_item *it, const char *how)
+{
+	struct c16_res r[3]; struct verdict v[3];
+	int any = 0;
+	int was_abandoned = ev_abandoned;
+	ev_abandoned = 0;
+	memset(v, 0, sizeof(v));
+	for (int k = 0; k < 3; k++) {
+		ev_items(it, &r[k], 1); any |= judge_item(it, &r[k], &v[k]);
+		if (v[k].fault) { for (int j = k + 1; j < 3; j++) { r[j] = r[k]; v[j] = v[k]; } break; }	/* a fault costs up to a watchdog period */
+	}
+	ev_abandoned |= was_abandoned;
+	if (!any) return 0;
+	for (int m = 0; m < (v[0].nres ? v[0].nres : v[1].nres ? v[1].nres : v[2].nres); m++) {
+		char stem[384], txt[512], sig[512], rep[256], gb[48], nb[48];
+		int bad = v[0].bad[m] || v[1].bad[m] || v[2].bad[m];
+		if (!bad) continue;
+		describe_item(it, m, stem, sizeof(stem), txt, sizeof(txt));
+		snprintf(rep, sizeof(rep), "kind=item\nk=%u\nidx=%u\nf=%u\na=0x%llx\nb=0x%llx\n", it->kind, it->idx, it->f,
+			 (unsigned long long)it->a, (unsigned long long)it->b);
+		int k = v[0].fault ? 0 : v[1].fault ? 1 : v[2].fault ? 2 : -1;
+		if (k >= 0) {
+			if (v[k].want[m] != -999) snprintf(sig, sizeof(sig), C16_SIGTAG "%s|fault|want=%d", stem, v[k].want[m]);
+			else snprintf(sig, sizeof(sig), C16_SIGTAG "%s|fault", stem);
+			vx_violation(sig, rep, "%s does not return a value: %s (%s; %s)", txt, ev_last_fault, how, C16_ABI);
+			continue;
+		}
+		if (v[0].got[m] != v[1].got[m] || v[0].got[m] != v[2].got[m]) {
+			snprintf(sig, sizeof(sig), C16_SIGTAG "%s|got=unstable|want=%d", stem, v[0].want[m]);
+			vx_violation(sig, rep, "%s gives a different value every time (%s, then %s), the definition gives %d (%s; %s)", txt,
+				     c16_num(v[0].got[m], gb), c16_num(v[0].got[m] != v[1].got[m] ? v[1].got[m] : v[2].got[m], nb),
+				     v[0].want[m], how, C16_ABI);
+			continue;
+		}
+		snprintf(sig, sizeof(sig), C16_SIGTAG "%s|got=%s|want=%d", stem, c16_got(v[0].got[m], gb), v[0].want[m]);
+		vx_violation(sig, rep, "%s gives %s, the definition gives %d (%s; %s)", txt, c16_num(v[0].got[m], nb), v[0].want[m], how, C16_ABI);
 	}
 	return 1;
 }
 
-static int f_by_name(const char *s)
+/* ------------------------------------------------------------------ a family of items in canonical order */
+typedef int (*emit_fn)(const struct c16_item *it, void *ctx);	/* non-zero: stop enumerating */
+typedef void (*family_fn)(emit_fn emit, void *ctx);
+
+#define RUN_BATCH 2048
+struct runner {
+	const char *name; int find;		/* find: look at every item (not only this worker's share) until the first bad one */
+	struct c16_item it[RUN_BATCH]; struct c16_res rs[RUN_BATCH]; unsigned n;
+	uint64_t index, judged, results, skipped, faults, bad[C16_NF];
+	int found, canonical; unsigned canon_m, mmask; struct c16_item first; uint64_t explained;
+	uint8_t seen[66 * 66]; uint64_t distinct; int sampled;
+};
+static int m_kmax(void);
+#ifdef C16_DO_FUNCS
+static int first_bad(unsigned f, int ptr, uint32_t *out);
+#endif
+#ifdef C16_DO_MACROS
+static void fam_m_structured(emit_fn emit, void *ctx);
+#endif
+static int c16_in_structured_set(uint64_t c, int kmax)
 {
-	for (int f = 0; f < NF; f++) if (s && !strcmp(s, fname[f])) return f;
-	return -1;
+	uint64_t n = ~c;
+	if (c16j_pop64(c) <= kmax || c16j_pop64(n) <= kmax) return 1;
+	if (c && !(((c >> __builtin_ctzll(c)) + 1) & (c >> __builtin_ctzll(c)))) return 1;
+	if (n && !(((n >> __builtin_ctzll(n)) + 1) & (n >> __builtin_ctzll(n)))) return 1;
+	return 0;
+}
+/* a failing case of an argument-form family says something new only if the plain form (a uint32_t / uint64_t variable with
+ * the same value) does not fail as well: that failure is reported by the sweep over all arguments (functions) or by the
+ * structured patterns (macros). 1 = nothing new; 2 = *plain is the case to report instead (a 64-bit value outside the
+ * structured patterns) */
+static int c16_explained(const struct c16_item *it, const struct c16_res *r, const struct verdict *v, struct c16_item *plain)
+{
+	struct c16_res pr; struct verdict pv;
+	if (it->kind == C16_K_F_U32 || it->kind == C16_K_M_U64) return 0;
+	uint64_t c;
+	if (r->status == C16_S_OK) c = r->c;
+	else if (it->kind == C16_K_F_PTR || it->kind == C16_K_F_TYPED || it->kind == C16_K_M_TYPED) c = it->a;
+	else if (r->status == C16_S_FAULT && r->v[1].neg == 1) c = r->c;	/* a fault caught in this process: the argument was stored first */
+#ifdef C16_DO_FUNCS
+	else if (it->kind == C16_K_F_CONST && it->idx < C16_NFMETA) c = c16_fmeta[it->idx].x;
+#endif
+	else return 0;
+	if (c16_is_f(it->kind)) {
+		*plain = (struct c16_item){ C16_K_F_U32, 0, it->f, 0, c, 0 };
+		ev_items(plain, &pr, 1);
+		return judge_item(plain, &pr, &pv) ? 1 : 0;
+	}
+	*plain = (struct c16_item){ C16_K_M_U64, 0, 0, 0, c, 0 };
+	ev_items(plain, &pr, 1);
+	if (!judge_item(plain, &pr, &pv)) return 0;
+	for (int m = 0; m < C16_NM; m++) if (v->bad[m] && !pv.bad[m]) return 0;
+	return c16_in_structured_set(c, m_kmax()) ? 1 : 2;
+}
+static int run_flush(struct runner *R)
+{
+	struct verdict v;
+	if (!R->n) return R->found;
+	ev_items(R->it, R->rs, R->n);
+	for (unsigned i = 0; i < R->n && !R->found; i++) {
+		int bad = judge_item(&R->it[i], &R->rs[i], &v);
+		if (!v.judged) { R->skipped++; continue; }
+		R->judged++; R->results += (uint64_t)v.nres;
+		if (bad) {
+			if (v.fault) R->faults++;
+			if (c16_is_f(R->it[i].kind)) R->bad[R->it[i].f]++;
+			else for (int m = 0; m < C16_NM; m++) R->bad[m] += (uint64_t)v.bad[m];
+			if (R->find && R->mmask && c16_is_m(R->it[i].kind) && !((v.bad[0] ? 1u : 0) & R->mmask) && !((v.bad[1] ? 2u : 0) & R->mmask)) continue;
+			if (R->find) {
+				struct c16_item plain;
+				int ex = c16_explained(&R->it[i], &R->rs[i], &v, &plain);
+				/* functions: the plain call fails for this value too, so the defect is the one the sweep over all arguments
+				 * sees - reported here under the sweep's signature (smallest failing argument), because an indeterminate
+				 * result may have looked right during this worker's sweep. macros: inside the structured patterns the
+				 * first family reports it; outside, the plain form with this value is the case to report */
+				if (ex == 1 && !c16_is_f(R->it[i].kind)) { R->explained++; continue; }
+				if (ex) { R->canonical = ex; R->canon_m = (v.bad[0] ? 1u : 0) | (v.bad[1] ? 2u : 0); }
+				R->found = 1; R->first = ex ? plain : R->it[i];
+			}
+			continue;
+		}
+		/* distinct result tuples of this worker's share of the family */
+		unsigned idx = c16_is_f(R->it[i].kind) ? (unsigned)R->it[i].f * 66 + (unsigned)(v.want[0] + 1)
+						       : (unsigned)v.want[0] * 66 + (unsigned)(v.want[1] + 1);
+		if (idx < sizeof(R->seen) && !R->seen[idx]) { R->seen[idx] = 1; R->distinct++; }
+		#ifdef C16_VARIANT_BUILD
+		if (0) {
+#else
+		if (!R->find && !R->sampled && vx_args.worker == 0 && vx_want_sample() && R->judged % 97 == 5) {
+#endif
+			char stem[384], txt[512], nb[48], nc[48];
+			describe_item(&R->it[i], 0, stem, sizeof(stem), txt, sizeof(txt));
+			R->sampled = 1;
+			if (c16_is_f(R->it[i].kind)) vx_sample("%s: %s = %s" C16_TAG, R->name, txt, c16_num(v.got[0], nb));
+			else vx_sample("%s: %s = %s, const_lssb of the same = %s" C16_TAG, R->name, txt, c16_num(v.got[0], nb), c16_num(v.got[1], nc));
+		}
+	}
+	R->n = 0;
+	return R->found || ev_abandoned;
+}
+static int run_emit(const struct c16_item *it, void *ctx)
+{
+	struct runner *R = ctx;
+	uint64_t i = R->index++;
+	if (!R->find && !vx_mine(i >> 6)) return 0;
+	R->it[R->n++] = *it;
+	return R->n == RUN_BATCH ? run_flush(R) : 0;
+}
+/* check this worker's share of a family, count, and name the family's first failing case if the share had one */
+static struct runner c16_R;
+static uint64_t c16_distinct;
+static int run_family(const char *name, family_fn fam, uint64_t *results_total)
+{
+	struct runner *R = &c16_R;
+	char nm[96];
+	memset(R, 0, sizeof(*R)); R->name = name;
+	fam(run_emit, R); run_flush(R);
+	snprintf(nm, sizeof(nm), "%s_cases", name); c16_count(nm, R->judged);
+	snprintf(nm, sizeof(nm), "%s_skipped_out_of_scope", name); c16_count(nm, R->skipped);
+	uint64_t nbad = 0;
+	for (unsigned k = 0; k < sizeof(R->bad) / sizeof(R->bad[0]); k++) nbad += R->bad[k];
+	snprintf(nm, sizeof(nm), "%s_mismatches", name); c16_count(nm, nbad);
+	snprintf(nm, sizeof(nm), "%s_faults", name); c16_count(nm, R->faults);
+	c16_distinct += R->distinct;
+	if (results_total) *results_total += R->results;
+	if (!nbad) return 0;
+	memset(R, 0, sizeof(*R)); R->name = name; R->find = 1;
+	fam(run_emit, R); run_flush(R);
+	if (R->found && R->canonical == 2) {
+#ifdef C16_DO_MACROS
+		/* a 64-bit value outside the structured patterns fails in the plain form too: name the first failing structured
+		 * pattern instead if there is one (the same defect under the signature the structured family gives it) */
+		struct c16_item plain = R->first; unsigned mm = R->canon_m;
+		memset(R, 0, sizeof(*R)); R->name = name; R->find = 1; R->mmask = mm;
+		fam_m_structured(run_emit, R); run_flush(R);
+		if (R->found) report_item(&R->first, "first failing structured pattern");
+		else { snprintf(nm, sizeof(nm), "no structured pattern fails; found in the family '%s'", name); report_item(&plain, nm); }
+#endif
+	} else if (R->found && R->canonical) {
+#ifdef C16_DO_FUNCS
+		uint32_t x; struct c16_item it = R->first;
+		if (first_bad(it.f, 0, &x)) it.a = x;
+		snprintf(nm, sizeof(nm), "0x%08x is the smallest failing argument", (uint32_t)it.a);
+		if (!report_item(&it, nm)) { snprintf(nm, sizeof(nm), "fails like the plain call; found in the family '%s'", name); report_item(&R->first, nm); }
+#endif
+	} else if (R->found) { snprintf(nm, sizeof(nm), "first failing case of the family '%s'", name); report_item(&R->first, nm); }
+	else if (!R->explained) vx_note("internal: %s: mismatches counted but none found on rescan", name);
+	snprintf(nm, sizeof(nm), "%s_failing_like_plain_form", name); c16_count(nm, R->explained);
+	return 1;
 }
 
-static void part_main(void)
+/* ------------------------------------------------------------------ structured values of a given width
+ * 0, all-ones, every k-bit pattern for k = 1..kmax (positions ascending, lexicographic) each followed by its complement,
+ * every contiguous mask lo..hi (hi > lo) each followed by its complement - all within w bits */
+typedef int (*value_fn)(uint64_t v, void *ctx);
+static int c16_kbits(int w, uint64_t ones, int k, int from, uint64_t acc, value_fn f, void *ctx)
 {
-	char *rp = vx_read_replay();
-	if (rp) {
-		const char *s = vx_replay_field(rp, "f");
-		int f = f_by_name(s);
-		s = vx_replay_field(rp, "x");
-		if (f >= 0 && s) {
-			uint32_t x = (uint32_t)strtoul(s, NULL, 0);
-			if (in_scope(f, x)) { report(f, x); vx_count("evaluations", 1); }
-		}
-		return;
+	if (k == 0) return f(acc, ctx) || f(~acc & ones, ctx);
+	for (int i = from; i <= w - k; i++) if (c16_kbits(w, ones, k - 1, i + 1, acc | (1ULL << i), f, ctx)) return 1;
+	return 0;
+}
+static int c16_structured(int w, int kmax, value_fn f, void *ctx)
+{
+	uint64_t ones = w >= 64 ? ~0ULL : (1ULL << w) - 1;
+	if (w <= 0) return f(0, ctx);
+	if (f(0, ctx) || f(ones, ctx)) return 1;
+	for (int k = 1; k <= kmax && k <= w; k++) if (c16_kbits(w, ones, k, 0, 0, f, ctx)) return 1;
+	for (int lo = 0; lo < w; lo++) for (int hi = lo + 1; hi < w; hi++) {
+		uint64_t m = (hi == 63 ? ~0ULL : (1ULL << (hi + 1)) - 1) & ~((1ULL << lo) - 1);
+		if (f(m, ctx) || f(~m & ones, ctx)) return 1;
 	}
-	selfcheck();
-	int complete = 1; uint64_t blocks = 0;
-	for (uint32_t b = 0; b < NBLOCKS; b++) {
-		if (!vx_mine(b)) continue;
-		if (vx_deadline_passed()) { complete = 0; break; }
-		memset(seen, 0, sizeof(seen));
-		for (uint32_t c = 0; c < (1u << (BLOCK_LOG2 - CHUNK_LOG2)); c++) {
-			uint32_t base = (b << BLOCK_LOG2) + (c << CHUNK_LOG2);
-			static uint64_t bad0[NF];
-			memcpy(bad0, bad, sizeof(bad0));
-			if (VX_TRY) { run_chunk(base); VX_END; }
-			else {	/* forget the partial chunk, redo it call by call */
-				VX_END; memcpy(bad, bad0, sizeof(bad0));
-				vx_count("chunks_rerun_after_fault", 1); run_chunk_slow(base);
+	return 0;
+}
+
+/* values of the run-time argument types: every value of a type of up to 16 bits, structured values for wider types;
+ * only non-negative values (what a negative argument means to a bit counter is not part of the statement) */
+struct typed_ctx { emit_fn emit; void *ctx; struct c16_item it; int isf; };
+static int typed_value(uint64_t v, void *ctx)
+{
+	struct typed_ctx *t = ctx;
+	t->it.a = v;
+	if (!t->isf) return t->emit(&t->it, t->ctx);
+	for (unsigned f = 0; f < C16_NF; f++) {
+		if (f == C16_F_ILOG2 && !v) continue;
+		t->it.f = f;
+		if (t->emit(&t->it, t->ctx)) return 1;
+	}
+	return 0;
+}
+static void fam_typed(emit_fn emit, void *ctx, int isf)
+{
+	struct typed_ctx t = { emit, ctx, { isf ? C16_K_F_TYPED : C16_K_M_TYPED, 0, 0, 0, 0, 0 }, isf };
+	for (unsigned ty = 0; ty < C16_NTYPES; ty++) {
+		unsigned bits; int sg;
+		ev_type_info(ty, &bits, &sg);
+		if (!bits) continue;
+		int w = (int)bits - (sg ? 1 : 0);
+		if (isf && w > 32) w = 32;
+		t.it.idx = ty;
+		if (w <= 16) { for (uint64_t v = 0; v < (1ULL << w); v++) if (typed_value(v, &t)) return; }
+		else if (c16_structured(w, vx_thorough() ? 3 : 2, typed_value, &t)) return;
+	}
+}
+/* operands of the operator forms: 0, all-ones, every one-bit pattern, and a few values with bits in several places */
+static unsigned op_values(unsigned bits, uint64_t *out)
+{
+	static const uint64_t extra[] = { 3, 0xf0, 0xf01, 0x7f, 0x55, 0xaaaa5555u, 0x7fffffffu, 0xf0f0f0f00f0f0f0fULL };
+	uint64_t ones = bits >= 64 ? ~0ULL : (1ULL << bits) - 1;
+	unsigned n = 0;
+	out[n++] = 0; out[n++] = ones;
+	for (unsigned i = 0; i < bits; i++) out[n++] = 1ULL << i;
+	for (unsigned i = 0; i < sizeof(extra) / sizeof(extra[0]); i++) {
+		int dup = 0;
+		if (extra[i] > ones) continue;
+		for (unsigned j = 0; j < n; j++) dup |= out[j] == extra[i];
+		if (!dup) out[n++] = extra[i];
+	}
+	return n;
+}
+static void fam_ops(emit_fn emit, void *ctx, int isf)
+{
+	struct c16_item it = { isf ? C16_K_F_OP : C16_K_M_OP, 0, 0, 0, 0, 0 };
+	uint64_t val[80];
+	for (unsigned ot = 0; ot < (isf ? C16_NOPTYPES_F : C16_NOPTYPES_M); ot++) {
+		unsigned nv = op_values(c16_otbits[ot], val);
+		for (unsigned e = 0; e < C16_NEXPRS; e++) for (unsigned i = 0; i < nv; i++) for (unsigned j = 0; j < nv; j++) {
+			it.idx = ot * C16_NEXPRS + e; it.a = val[i]; it.b = val[j];
+			if (!isf) { if (emit(&it, ctx)) return; continue; }
+			for (unsigned f = 0; f < C16_NF; f++) { it.f = f; if (emit(&it, ctx)) return; }
+		}
+	}
+}
+
+/* =========================================================================================== the four functions */
+#ifdef C16_DO_FUNCS
+
+#define SW_CHUNK 4096u
+#define BLOCK_LOG2 24
+#define NBLOCKS (1u << (32 - BLOCK_LOG2))
+#define FAULT_CAP 64		/* faults of one function (per worker) before it is no longer swept: every fault is a case redone alone */
+
+static uint64_t sw_calls[2][C16_NF], sw_bad[2][C16_NF], sw_faults[2][C16_NF];
+static unsigned sw_alive[2] = { 15, 15 };
+static int sw_complete = 1;
+
+/* sweep [base, base+n) through the plain call (ptr = 0) or through the function pointers (ptr = 1) into o;
+ * returns 0, or the fault kind with *at = first argument of the chunk of SW_CHUNK in which the fault happened */
+#ifndef C16_PART_ILP32
+static int ev_sweep(uint32_t base, uint64_t n, unsigned mask, int ptr, struct c16_sweep_out *o, uint32_t *at)
+{
+	static int64_t buf[C16_NF][SW_CHUNK];
+	int64_t *const r[C16_NF] = { buf[0], buf[1], buf[2], buf[3] };
+	for (uint64_t off = 0; off < n; off += SW_CHUNK) {
+		uint32_t b = base + (uint32_t)off, m = n - off < SW_CHUNK ? (uint32_t)(n - off) : SW_CHUNK;
+		if (VX_TRY) {
+			if (ptr) c16u_f_sweep_ptr(b, m, mask, r[0], r[1], r[2], r[3]);
+			else c16u_f_sweep(b, m, mask, r[0], r[1], r[2], r[3]);
+			VX_END;
+		} else {
+			VX_END; vx_lib_reset();
+			snprintf(ev_last_fault, sizeof(ev_last_fault), "%s", vx_fault_msg);
+			*at = b; return vx_fault_kind;
+		}
+		c16j_judge(b, m, mask, r, o);
+	}
+	return 0;
+}
+static int ev_fp_ok(void) { return c16u_fp_ok; }
+static unsigned ev_macro_mask(void) { return c16u_f_macro_mask; }
+static unsigned ev_nconst(void) { return c16u_f_nconst; }
+#else
+static int ev_sweep(uint32_t base, uint64_t n, unsigned mask, int ptr, struct c16_sweep_out *o, uint32_t *at)
+{
+	static struct c16_sweep_out part;
+	while (n) {	/* requests of at most 2^24 arguments */
+		uint32_t m = n > (1u << 24) ? (1u << 24) : (uint32_t)n;
+		struct c16_req rq = { C16_RQ_SWEEP, m, base, mask | (ptr ? 256u : 0) };
+		struct c16_reply rep;
+		int k;
+		if (ev_abandoned) { *at = base; return -1; }
+		k = rem_request(&rq, NULL, 0, &part, sizeof(part), &rep);
+		if (k < 0) { rem_died(); continue; }
+		if (k > 0) {
+			if (rep.index == 0xffffffffu) { fprintf(stderr, "c16: ILP32 helper: %s\n", rep.msg); _exit(3); }
+			snprintf(ev_last_fault, sizeof(ev_last_fault), "%s", rep.msg);
+			*at = base + rep.index * SW_CHUNK; return (int)rep.status;
+		}
+		for (unsigned f = 0; f < C16_NF; f++) {
+			o->calls[f] += part.calls[f]; o->bad[f] += part.bad[f];
+			if (part.have[f] && !o->have[f]) { o->have[f] = 1; o->first_x[f] = part.first_x[f]; o->first_got[f] = part.first_got[f]; }
+		}
+		for (unsigned i = 0; i < C16_NTUPLES; i++) if (part.seen[i] && !o->seen[i]) { o->seen[i] = 1; o->distinct++; }
+		base += m; n -= m;
+	}
+	return 0;
+}
+static struct c16_res c16_info;
+static void ev_info(void)
+{
+	struct c16_item it = { C16_K_INFO, 0, 0, 0, 0, 0 };
+	if (c16_info.status == C16_S_OK && c16_info.v[1].bits) return;
+	ev_items(&it, &c16_info, 1);
+}
+static int ev_fp_ok(void) { ev_info(); return (int)c16_info.v[0].neg; }
+static unsigned ev_macro_mask(void) { ev_info(); return (unsigned)c16_info.v[0].bits; }
+static unsigned ev_nconst(void) { ev_info(); return (unsigned)c16_info.c; }
+#endif
+
+/* the chunk in which a sweep faulted, call by call */
+static void sweep_slow(uint32_t base, uint32_t n, int ptr, struct c16_sweep_out *o)
+{
+	static struct c16_item it[SW_CHUNK]; static struct c16_res rs[SW_CHUNK];
+	struct verdict v;
+	vx_count("chunks_rerun_after_fault" C16_TAG, 1);
+	for (unsigned f = 0; f < C16_NF; f++) {
+		unsigned k = 0;
+		if (!(sw_alive[ptr] & 1u << f)) continue;
+		for (uint32_t i = 0; i < n; i++) {
+			if (f == C16_F_ILOG2 && base + i == 0) continue;
+			it[k] = (struct c16_item){ ptr ? C16_K_F_PTR : C16_K_F_U32, 0, f, 0, base + i, 0 }; k++;
+		}
+		ev_items(it, rs, k);
+		for (unsigned i = 0; i < k; i++) {
+			if (!judge_item(&it[i], &rs[i], &v)) { if (v.judged) o->calls[f]++; continue; }
+			o->calls[f]++; o->bad[f]++;
+			if (v.fault) sw_faults[ptr][f]++;
+			if (!o->have[f]) { o->have[f] = 1; o->first_x[f] = (uint32_t)it[i].a; }
+		}
+		if (sw_faults[ptr][f] >= FAULT_CAP) {
+			sw_alive[ptr] &= ~(1u << f); sw_complete = 0;
+			vx_note("%s%s: %d faults in this worker's share; the function is not swept any further" C16_TAG, c16_fname[f],
+				ptr ? " through a pointer" : "", FAULT_CAP);
+		}
+	}
+}
+/* one block of arguments, faults included */
+static void sweep_block(uint32_t base, uint64_t n, int ptr, struct c16_sweep_out *o)
+{
+	uint64_t done = 0;
+	memset(o, 0, sizeof(*o));
+	while (done < n && sw_alive[ptr] && !ev_abandoned) {
+		uint32_t at = 0;
+		int k = ev_sweep(base + (uint32_t)done, n - done, sw_alive[ptr], ptr, o, &at);
+		if (!k) { done = n; break; }
+		if (k < 0) break;
+		/* [base+done, at) was judged chunk by chunk (local) or is judged again below (remote: the reply of a faulting
+		 * request carries no results) */
+#ifdef C16_PART_ILP32
+		if (at > base + (uint32_t)done) {
+			uint32_t at2 = 0;
+			if (ev_sweep(base + (uint32_t)done, at - (base + (uint32_t)done), sw_alive[ptr], ptr, o, &at2)) { sw_complete = 0; break; }
+		}
+#endif
+		uint32_t m = n - (at - base) < SW_CHUNK ? (uint32_t)(n - (at - base)) : SW_CHUNK;
+		sweep_slow(at, m, ptr, o);
+		done = (uint64_t)(at - base) + m;
+	}
+	if (done < n) sw_complete = 0;
+}
+
+/* smallest argument of the whole space on which f fails */
+static int first_bad(unsigned f, int ptr, uint32_t *out)
+{
+	static struct c16_sweep_out o;
+	for (uint64_t base = 0; base < (1ULL << 32) && !ev_abandoned; base += 1u << 20) {
+		uint32_t at = 0;
+		memset(&o, 0, sizeof(o));
+		int k = ev_sweep((uint32_t)base, 1u << 20, 1u << f, ptr, &o, &at);
+		if (k < 0) return 0;
+		if (k > 0) {	/* the first bad argument is either before the faulting chunk (mismatch) or in it */
+			static struct c16_item it[SW_CHUNK]; static struct c16_res rs[SW_CHUNK];
+			struct verdict v;
+#ifdef C16_PART_ILP32
+			if (at > (uint32_t)base) {
+				uint32_t at2 = 0;
+				memset(&o, 0, sizeof(o));
+				if (ev_sweep((uint32_t)base, at - (uint32_t)base, 1u << f, ptr, &o, &at2)) return 0;
+			}
+#endif
+			if (o.have[f]) { *out = o.first_x[f]; return 1; }
+			unsigned n = 0;
+			for (uint32_t i = 0; i < SW_CHUNK; i++) {
+				if (f == C16_F_ILOG2 && at + i == 0) continue;
+				it[n++] = (struct c16_item){ ptr ? C16_K_F_PTR : C16_K_F_U32, 0, f, 0, at + i, 0 };
+			}
+			ev_items(it, rs, n);
+			for (unsigned i = 0; i < n; i++) if (judge_item(&it[i], &rs[i], &v)) { *out = (uint32_t)it[i].a; return 1; }
+			base = (uint64_t)at + SW_CHUNK - (1u << 20);	/* a fault that did not repeat: go on behind the chunk */
+			continue;
+		}
+		if (o.have[f]) { *out = o.first_x[f]; return 1; }
+	}
+	return 0;
+}
+
+/* families of argument forms */
+static void fam_f_typed(emit_fn e, void *c) { fam_typed(e, c, 1); }
+static void fam_f_ops(emit_fn e, void *c) { fam_ops(e, c, 1); }
+static void fam_f_const(emit_fn emit, void *ctx)
+{
+	struct c16_item it = { C16_K_F_CONST, 0, 0, 0, 0, 0 };
+	unsigned n = ev_nconst();
+	if (n != C16_NFMETA) { fprintf(stderr, "c16: constant-form tables of the harness and the user unit differ (%u, %u)\n", n, (unsigned)C16_NFMETA); _exit(3); }
+	for (unsigned i = 0; i < n; i++) for (unsigned f = 0; f < C16_NF; f++) {
+		if (f == C16_F_ILOG2 && !c16_fmeta[i].x) continue;
+		it.idx = i; it.f = f;
+		if (emit(&it, ctx)) return;
+	}
+}
+struct ptrsub { emit_fn emit; void *ctx; unsigned pattern; };
+static int ptrsub_value(uint64_t v, void *ctx)
+{
+	struct ptrsub *p = ctx;
+	for (unsigned f = 0; f < C16_NF; f++) {
+		struct c16_item it = { C16_K_F_PTR, 0, f, 0, v, p->pattern };
+		if (f == C16_F_ILOG2 && !v) continue;
+		if (p->emit(&it, p->ctx)) return 1;
+	}
+	return 0;
+}
+static void fam_f_ptr_subset(emit_fn emit, void *ctx)
+{
+	struct ptrsub p = { emit, ctx, 0 };
+	c16_structured(32, 3, ptrsub_value, &p);
+}
+/* the same values, the registers filled with three patterns before each call */
+static void fam_f_ptr_regs(emit_fn emit, void *ctx)
+{
+	for (unsigned pat = 1; pat <= 3; pat++) {
+		struct ptrsub p = { emit, ctx, pat };
+		if (c16_structured(32, 3, ptrsub_value, &p)) return;
+	}
+}
+
+static void funcs_main(void)
+{
+	static struct c16_sweep_out o;
+	static uint8_t seen_all[C16_NTUPLES];
+	uint64_t blocks[2] = { 0, 0 }, distinct_tagged = 0, distinct_untagged = 0, ev = 0, form_results = 0;
+	/* the pointer form is a different piece of code from the plain call only if the header makes a name a macro; then (and
+	 * in the thorough tier anyway) it gets the full sweep, otherwise a structured subset */
+	int fp = ev_fp_ok(), ptr_full = fp && (ev_macro_mask() || vx_thorough());
+	c16_count("public_header_defines_names_as_macros_mask", vx_args.worker == 0 ? ev_macro_mask() : 0);
+	if (!fp) vx_note("the addresses of the four functions cannot be taken with this public header: the pointer-call family is left out" C16_TAG);
+
+	for (int ptr = 0; ptr <= (ptr_full ? 1 : 0); ptr++)
+		for (uint32_t b = 0; b < NBLOCKS; b++) {
+			if (!vx_mine(b + (uint32_t)ptr * 7)) continue;
+			if (vx_deadline_passed() || ev_abandoned) { sw_complete = 0; break; }
+			sweep_block(b << BLOCK_LOG2, 1ULL << BLOCK_LOG2, ptr, &o);
+			for (unsigned f = 0; f < C16_NF; f++) { sw_calls[ptr][f] += o.calls[f]; sw_bad[ptr][f] += o.bad[f]; }
+			if (!ptr) {
+				distinct_tagged += o.distinct;
+				for (unsigned i = 0; i < C16_NTUPLES; i++) if (o.seen[i] && !seen_all[i]) { seen_all[i] = 1; distinct_untagged++; }
+				if (b == 0) vx_count("scope_guard_skipped_ilog2_of_0" C16_TAG, 1);
+			}
+			blocks[ptr]++;
+			if (!ptr && vx_args.worker == 0 && blocks[0] == 1 && vx_want_sample()) {
+				uint32_t x = (b << BLOCK_LOG2) + 0x00a5f00du * (b + 1) % (1u << BLOCK_LOG2);
+				struct c16_item it[C16_NF]; struct c16_res rs[C16_NF];
+				for (unsigned f = 0; f < C16_NF; f++) it[f] = (struct c16_item){ C16_K_F_U32, 0, f, 0, x | 1, 0 };
+				ev_items(it, rs, C16_NF);
+				vx_sample("x=0x%08x: bitcnt=%lld clz=%lld ctz=%lld ilog2=%lld (builtins: %d %d %d %d)" C16_TAG, x | 1,
+					  (long long)rs[0].v[0].bits, (long long)rs[1].v[0].bits, (long long)rs[2].v[0].bits, (long long)rs[3].v[0].bits,
+					  c16j_pop32(x | 1), c16j_clz32(x | 1), c16j_ctz32(x | 1), c16j_ilog2(x | 1));
 			}
 		}
-		for (unsigned i = 0; i < sizeof(seen); i++) if (seen[i] && !seen_all[i]) { seen_all[i] = 1; distinct_untagged++; }
-		uint64_t n = 1ULL << BLOCK_LOG2;
-		calls[F_BITCNT] += n; calls[F_CLZ] += n; calls[F_CTZ] += n; calls[F_ILOG2] += n - (b == 0);
-		if (b == 0) vx_count("scope_guard_skipped_ilog2_of_0", 1);
-		blocks++;
-		if (vx_want_sample() && b % 85 == 0) {
-			uint32_t x = (b << BLOCK_LOG2) + 0x00a5f00du * (b + 1) % (1u << BLOCK_LOG2);
-			if (x) vx_sample("x=0x%08x: bitcnt=%d clz=%d ctz=%d ilog2=%d (builtins: %d %d %d %d)", x, bitcnt(x), clz(x), ctz(x),
-					 ilog2(x), ref_pop32(x), ref_clz32(x), ref_ctz32(x), ref_ilog2(x));
-		}
+	for (int ptr = 0; ptr < 2; ptr++) for (unsigned f = 0; f < C16_NF; f++) {
+		char nm[96];
+		snprintf(nm, sizeof(nm), "calls%s_%s", ptr ? "_through_pointer" : "", c16_fname[f]); c16_count(nm, sw_calls[ptr][f]);
+		snprintf(nm, sizeof(nm), "mismatches%s_%s", ptr ? "_through_pointer" : "", c16_fname[f]); c16_count(nm, sw_bad[ptr][f]);
+		snprintf(nm, sizeof(nm), "faults%s_%s", ptr ? "_through_pointer" : "", c16_fname[f]); c16_count(nm, sw_faults[ptr][f]);
+		ev += sw_calls[ptr][f];
 	}
-	uint64_t ev = 0;
-	for (int f = 0; f < NF; f++) {
-		char nm[64];
-		snprintf(nm, sizeof(nm), "calls_%s", fname[f]); vx_count(nm, calls[f]);
-		snprintf(nm, sizeof(nm), "mismatches_%s", fname[f]); vx_count(nm, bad[f]);
-		snprintf(nm, sizeof(nm), "faults_%s", fname[f]); vx_count(nm, faults[f]);
-		ev += calls[f];
-	}
-	vx_count("evaluations", ev);
-	vx_count("distinct", distinct_tagged);
-	vx_max("distinct_result_tuples_within_one_worker_max", distinct_untagged);
-	vx_count("func_blocks_of_2^24_done", blocks);
-	vx_and("exhaustive", complete);
-	vx_and("exhaustive_functions", complete);
-	for (int f = 0; f < NF; f++) {
+	c16_count("func_blocks_of_2^24_done", blocks[0]);
+	c16_count("func_blocks_of_2^24_done_through_pointer", blocks[1]);
+
+	/* the argument-form families */
+	c16_distinct = 0;
+	if (fp && !ptr_full) run_family("func_ptr_subset", fam_f_ptr_subset, &form_results);
+	if (fp) run_family("func_ptr_regs", fam_f_ptr_regs, &form_results);
+	run_family("func_typed", fam_f_typed, &form_results);
+	run_family("func_expr", fam_f_ops, &form_results);
+	run_family("func_const", fam_f_const, &form_results);
+	c16_max("func_constant_expression_forms", C16_NFMETA);
+
+	c16_count("evaluations", ev + form_results);
+	c16_count("distinct", distinct_tagged + c16_distinct);
+	c16_max("distinct_result_tuples_within_one_worker_max", distinct_untagged);
+	if (ev_abandoned) sw_complete = 0;
+	vx_and("exhaustive", sw_complete);
+	vx_and("exhaustive_functions" C16_TAG, sw_complete);
+
+	for (int ptr = 0; ptr < 2; ptr++) for (unsigned f = 0; f < C16_NF; f++) {
 		uint32_t x;
-		if (!bad[f]) continue;
-		if (first_bad(f, &x)) report(f, x);
-		else vx_note("internal: %s mismatches counted but none found on rescan", fname[f]);
+		if (!sw_bad[ptr][f]) continue;
+		if (first_bad(f, ptr, &x)) {
+			struct c16_item it = { ptr ? C16_K_F_PTR : C16_K_F_U32, 0, f, 0, x, 0 };
+			char how[96]; snprintf(how, sizeof(how), "0x%08x is the smallest failing argument", x);
+			if (ptr) {	/* the plain call fails for this argument as well: that is the case reported (by the plain sweep) */
+				struct c16_item pl = { C16_K_F_U32, 0, f, 0, x, 0 }; struct c16_res pr; struct verdict pv;
+				ev_items(&pl, &pr, 1);
+				if (judge_item(&pl, &pr, &pv)) { it = pl; if (first_bad(f, 0, &x)) { it.a = x; snprintf(how, sizeof(how), "0x%08x is the smallest failing argument", x); } }
+			}
+			if (!report_item(&it, how)) vx_note("internal: %s(0x%08x) failed in the sweep but not alone" C16_TAG, c16_fname[f], x);
+		} else vx_note("internal: %s mismatches counted but none found on rescan" C16_TAG, c16_fname[f]);
 	}
 }
-#endif /* C16_PART_FUNCS */
+#endif /* C16_DO_FUNCS */
 
-/* ============================================================= part: macros */
-#ifdef C16_PART_MACROS
+/* =========================================================================================== the two macros */
+#ifdef C16_DO_MACROS
 
-enum { M_POP, M_LSSB, NM };
-static const char *mname[NM] = { "const_pop", "const_lssb" };
-
-/* run-time evaluation of the macros (the argument is not a constant here) */
-/* The statement speaks about the VALUE of the macro expression (-1 for zero): it is widened value-preservingly to
- * 128 bits before it is compared, so that an unsigned 2^64-1 is not mistaken for -1 as a cast to a 64-bit type (or
- * the usual arithmetic conversions of ==) would. 9223372036854775807 below means "does not fit in 64 signed bits". */
-#define C16_OOR INT64_MAX
-static inline int64_t c16_val(__int128 w) { return (w < (__int128)INT64_MIN || w > (__int128)INT64_MAX) ? C16_OOR : (int64_t)w; }
-static inline int64_t rt_pop(uint64_t c) { return c16_val((__int128)(const_pop(c))); }
-static inline int64_t rt_lssb(uint64_t c) { return c16_val((__int128)(const_lssb(c))); }
-static inline int64_t rt_m(int m, uint64_t c) { return m == M_POP ? rt_pop(c) : rt_lssb(c); }
-static inline int64_t want_m(int m, uint64_t c) { return m == M_POP ? ref_pop64(c) : ref_lssb64(c); }
-
-/* compile-time evaluation: literal K, static initialisers */
-struct c16_k { uint64_t k; __int128 ct[NM]; int py[NM]; };
-#define C16_K(K, P, L) { K, { (__int128)(const_pop(K)), (__int128)(const_lssb(K)) }, { P, L } },
-static const struct c16_k c16_table[] = {
-#include "c16_table.inc"
-};
-#undef C16_K
-#define NTABLE (sizeof(c16_table) / sizeof(c16_table[0]))
-
-static uint64_t evals[NM], bad_rt[NM], bad_ct[NM], bad_agree[NM];
-static uint64_t own_first[NM]; static int own_first_set[NM];	/* this worker's first failing run-time argument */
-static uint8_t seen[66 * 66]; static uint64_t distinct_tagged;
-static uint8_t seen_all[66 * 66]; static uint64_t distinct_untagged;
-
-static inline void check_rt(uint64_t c)
+/* ---- the compile-time table: entry i as (compiler's reading of the argument, const_pop, const_lssb) */
+#ifdef C16_PART_ILP32
+#include "c16_ilp32_gen.h"	/* the table section of the -m32 object, extracted with objcopy by the prebuild hook */
+#define TAB_ENTRY 40
+static unsigned tab_n(void) { return C16_ILP32_TABLE_OK ? (unsigned)(sizeof(c16_ilp32_table) / TAB_ENTRY) : 0; }
+static uint64_t tab_u64(const unsigned char *p) { uint64_t v; memcpy(&v, p, 8); return v; }
+static void tab_get(unsigned i, uint64_t *cc, __int128 ct[C16_NM])
 {
-	int64_t p = rt_pop(c), l = rt_lssb(c);
-	int wp = ref_pop64(c), wl = ref_lssb64(c);
-	int ok = 1;
-	if (p != wp) { ok = 0; if (!own_first_set[M_POP]) { own_first_set[M_POP] = 1; own_first[M_POP] = c; } bad_rt[M_POP]++; }
-	if (l != wl) { ok = 0; if (!own_first_set[M_LSSB]) { own_first_set[M_LSSB] = 1; own_first[M_LSSB] = c; } bad_rt[M_LSSB]++; }
-	if (ok) {
-		unsigned idx = (unsigned)wp * 66 + (unsigned)(wl + 1);
-		if (!seen[idx]) { seen[idx] = 1; distinct_tagged++; }
+	const unsigned char *e = c16_ilp32_table + (size_t)i * TAB_ENTRY;
+	*cc = tab_u64(e);
+	for (int m = 0; m < C16_NM; m++) {
+		c16_pair p = { tab_u64(e + 8 + 16 * m), (long long)tab_u64(e + 16 + 16 * m) };
+		ct[m] = c16_wide_of(p);
 	}
 }
-static void fold_seen(void)
+#else
+static unsigned tab_n(void) { return c16u_ntable; }
+static void tab_get(unsigned i, uint64_t *cc, __int128 ct[C16_NM])
 {
-	for (unsigned i = 0; i < sizeof(seen); i++) if (seen[i]) { if (!seen_all[i]) { seen_all[i] = 1; distinct_untagged++; } seen[i] = 0; }
+	*cc = c16u_table[i].cc;
+	for (int m = 0; m < C16_NM; m++) ct[m] = c16u_table[i].v[m];
 }
+#endif
 
-/* ---- (a) structured patterns, canonical order:
- *  0, ~0, k-bit patterns for k = 1..KMAX (positions ascending, lexicographic) each
- *  followed by its complement, contiguous masks lo..hi (hi > lo) each followed by
- *  its complement. visit() returns non-zero to stop. */
-typedef int (*visit_fn)(uint64_t c, uint64_t index, void *ctx);
-static uint64_t pat_index;
-static int kbits(int k, int from, uint64_t acc, visit_fn v, void *ctx)
+/* table entry i: the compile-time value against the definition and against the run-time value of the same argument;
+ * rec: bit 0 record 'constant', bit 1 record 'constant-vs-runtime' for macro m */
+static int check_table(unsigned i, int m, int rec)
 {
-	if (k == 0) {
-		if (v(acc, pat_index++, ctx)) return 1;
-		return v(~acc, pat_index++, ctx);
-	}
-	for (int i = from; i <= 64 - k; i++) if (kbits(k - 1, i + 1, acc | (1ULL << i), v, ctx)) return 1;
-	return 0;
-}
-static int structured(int kmax, visit_fn v, void *ctx)
-{
-	pat_index = 0;
-	if (v(0, pat_index++, ctx) || v(~0ULL, pat_index++, ctx)) return 1;
-	for (int k = 1; k <= kmax; k++) if (kbits(k, 0, 0, v, ctx)) return 1;
-	for (int lo = 0; lo < 64; lo++) for (int hi = lo + 1; hi < 64; hi++) {
-		uint64_t m = (hi == 63 ? ~0ULL : (1ULL << (hi + 1)) - 1) & ~((1ULL << lo) - 1);
-		if (v(m, pat_index++, ctx) || v(~m, pat_index++, ctx)) return 1;
-	}
-	return 0;
-}
-static uint64_t structured_mine;
-static int visit_check(uint64_t c, uint64_t index, void *ctx)
-{
-	(void)ctx;
-	if (!vx_mine(index >> 6)) return 0;
-	check_rt(c); structured_mine++;
-	if (vx_want_sample() && index % 20011 == 7)
-		vx_sample("structured #%llu c=0x%016llx: const_pop=%lld const_lssb=%lld (run time)", (unsigned long long)index,
-			  (unsigned long long)c, (long long)rt_pop(c), (long long)rt_lssb(c));
-	return 0;
-}
-struct find { int m; uint64_t c; int found; };
-static int visit_find(uint64_t c, uint64_t index, void *ctx)
-{
-	struct find *f = ctx; (void)index;
-	if (rt_m(f->m, c) != want_m(f->m, c)) { f->c = c; f->found = 1; return 1; }
-	return 0;
-}
-
-/* ---- (b) lanes: one half sweeps, the other is a boundary value */
-static const uint32_t boundary[4] = { 0, 1, 0x80000000u, 0xffffffffu };
-#define NLANES 8
-static inline uint64_t lane_value(int lane, uint32_t v)
-{
-	uint32_t o = boundary[lane & 3];
-	return lane < 4 ? ((uint64_t)o << 32) | v : ((uint64_t)v << 32) | o;
-}
-static void lane_name(int lane, char *buf, size_t n)
-{
-	if (lane < 4) snprintf(buf, n, "low half sweeps, high half = 0x%08x", boundary[lane & 3]);
-	else snprintf(buf, n, "high half sweeps, low half = 0x%08x", boundary[lane & 3]);
-}
-
-static void report_rt(int m, uint64_t c, const char *how)
-{
-	char sig[256], rep[128];
-	int64_t got = rt_m(m, c), want = want_m(m, c);
-	if (got == want) return;
-	snprintf(sig, sizeof(sig), "macro|%s|runtime|c=0x%016llx|got=%lld|want=%lld", mname[m], (unsigned long long)c,
-		 (long long)got, (long long)want);
-	snprintf(rep, sizeof(rep), "kind=runtime\nm=%s\nc=0x%016llx\n", mname[m], (unsigned long long)c);
-	vx_violation(sig, rep, "%s(c) evaluated at run time for c=0x%016llx gives %lld, the definition gives %lld (%s)",
-		     mname[m], (unsigned long long)c, (long long)got, (long long)want, how);
-}
-/* table entry i: compile-time value against the definition and against the run-time value */
-static int check_table(unsigned i, int m, int rec)	/* rec: bit 0 record 'constant', bit 1 record 'constant-vs-runtime' */
-{
-	const struct c16_k *e = &c16_table[i];
-	volatile uint64_t vk = e->k;
-	int64_t want = want_m(m, e->k), ct = c16_val(e->ct[m]), rt = rt_m(m, vk);
-	char sig[256], rep[128];
+	const struct c16_mmeta *e = &c16_mmeta[i];
+	uint64_t cc; __int128 ct[C16_NM];
+	char sig[640], rep[512], gb[48], nb[48], rb[48];
 	int r = 0;
-	if (e->py[m] != want) {
-		fprintf(stderr, "c16: generator and builtin disagree on the definition for K=0x%016llx\n", (unsigned long long)e->k);
+	tab_get(i, &cc, ct);
+	if (cc != e->c || e->py[C16_M_POP] != c16j_pop64(e->c) || e->py[C16_M_LSSB] != c16j_lssb64(e->c)) {
+		fprintf(stderr, "c16: generator, compiler and builtins disagree on the argument %s (%s): 0x%016llx 0x%016llx\n", e->text, C16_ABI,
+			(unsigned long long)e->c, (unsigned long long)cc);
 		_exit(3);
 	}
-	snprintf(rep, sizeof(rep), "kind=table\nm=%s\nc=0x%016llx\n", mname[m], (unsigned long long)e->k);
-	if (ct != want) {
+	int want = e->py[m];
+	struct c16_item it = { C16_K_M_U64, 0, 0, 0, e->c, 0 };
+	struct c16_res rs;
+	ev_items(&it, &rs, 1);
+	snprintf(rep, sizeof(rep), "kind=table\ni=%u\nm=%d\narg=%s\n", i, m, e->text);
+	if (ct[m] != want) {
 		r |= 1;
 		if (rec & 1) {
-			snprintf(sig, sizeof(sig), "macro|%s|constant|c=0x%016llx|got=%lld|want=%lld", mname[m],
-				 (unsigned long long)e->k, (long long)ct, (long long)want);
-			vx_violation(sig, rep, "%s(0x%016llxULL) evaluated by the compiler (static initialiser) is %lld, the definition gives %lld",
-				     mname[m], (unsigned long long)e->k, (long long)ct, (long long)want);
+			snprintf(sig, sizeof(sig), C16_SIGTAG "macro|%s|constant|arg=%s|got=%s|want=%d", c16_mname[m], e->text, c16_got(ct[m], gb), want);
+			vx_violation(sig, rep, "%s(%s) evaluated by the compiler (static initialiser, %s) is %s, the definition gives %d "
+				     "(the argument is 0x%016llx)", c16_mname[m], e->text, C16_ABI, c16_num(ct[m], nb), want, (unsigned long long)e->c);
 		}
 	}
-	if (ct != rt) {
+	if (rs.status == C16_S_OK && ct[m] != c16_wide_of(rs.v[m])) {
 		r |= 2;
 		if (rec & 2) {
-			snprintf(sig, sizeof(sig), "macro|%s|constant-vs-runtime|c=0x%016llx|constant=%lld|runtime=%lld", mname[m],
-				 (unsigned long long)e->k, (long long)ct, (long long)rt);
-			vx_violation(sig, rep, "%s of 0x%016llx is %lld as a compile-time constant but %lld for a run-time argument",
-				     mname[m], (unsigned long long)e->k, (long long)ct, (long long)rt);
+			snprintf(sig, sizeof(sig), C16_SIGTAG "macro|%s|constant-vs-runtime|arg=%s|constant=%s|runtime=%s", c16_mname[m], e->text,
+				 c16_got(ct[m], gb), c16_got(c16_wide_of(rs.v[m]), rb));
+			vx_violation(sig, rep, "%s(%s) is %s as a compile-time constant but %s for a run-time uint64_t argument of the same value "
+				     "0x%016llx (%s)", c16_mname[m], e->text, c16_num(ct[m], nb), c16_num(c16_wide_of(rs.v[m]), rb),
+				     (unsigned long long)e->c, C16_ABI);
 		}
 	}
 	return r;
 }
 
-static int m_by_name(const char *s)
+/* ---- families */
+struct u64_ctx { emit_fn emit; void *ctx; };
+static int u64_value(uint64_t v, void *ctx)
 {
-	for (int m = 0; m < NM; m++) if (s && !strcmp(s, mname[m])) return m;
-	return -1;
+	struct u64_ctx *u = ctx;
+	struct c16_item it = { C16_K_M_U64, 0, 0, 0, v, 0 };
+	return u->emit(&it, u->ctx);
 }
-
-static void part_main(void)
+static int m_kmax(void)
 {
-	int kmax = vx_thorough() ? 4 : 3;
-	char *rp = vx_read_replay();
-	if (rp) {
-		const char *kind = vx_replay_field(rp, "kind");
-		char kd[32]; snprintf(kd, sizeof(kd), "%s", kind ? kind : "");
-		int m = m_by_name(vx_replay_field(rp, "m"));
-		const char *s = vx_replay_field(rp, "c");
-		if (m < 0 || !s) return;
-		uint64_t c = strtoull(s, NULL, 0);
-		vx_count("evaluations", 1);
-		if (!strcmp(kd, "runtime")) report_rt(m, c, "replay");
-		else if (!strcmp(kd, "table")) {
-			for (unsigned i = 0; i < NTABLE; i++) if (c16_table[i].k == c) { check_table(i, m, 3); break; }
+#if defined(C16_PART_ILP32)
+	return 3;
+#else
+	return vx_thorough() ? 4 : 3;
+#endif
+}
+static void fam_m_structured(emit_fn emit, void *ctx) { struct u64_ctx u = { emit, ctx }; c16_structured(64, m_kmax(), u64_value, &u); }
+static void fam_m_typed(emit_fn e, void *c) { fam_typed(e, c, 0); }
+static void fam_m_ops(emit_fn e, void *c) { fam_ops(e, c, 0); }
+
+#ifndef C16_PART_ILP32
+/* ---- lanes: one 32-bit half sweeps, the other is a boundary value (local only: 2^27..2^35 evaluations) */
+static const uint32_t lane_boundary[4] = { 0, 1, 0x80000000u, 0xffffffffu };
+#define NLANES 8
+static inline uint64_t lane_value(int lane, uint32_t v)
+{
+	uint32_t o = lane_boundary[lane & 3];
+	return lane < 4 ? ((uint64_t)o << 32) | v : ((uint64_t)v << 32) | o;
+}
+static uint64_t lane_bad[C16_NM], lane_first[C16_NM], lane_faults; static int lane_first_set[C16_NM];
+static uint8_t lane_seen[66 * 66]; static uint64_t lane_distinct;
+#define LANE_CHUNK 4096
+static void lane_chunk(const uint64_t *c, unsigned n)
+{
+	static c16_pair pop[LANE_CHUNK], lssb[LANE_CHUNK];
+	if (VX_TRY) { c16u_m_u64(c, n, pop, lssb); VX_END; }
+	else {	/* a fault: the chunk again as single items */
+		static struct c16_item it[LANE_CHUNK]; static struct c16_res rs[LANE_CHUNK];
+		VX_END; vx_lib_reset();
+		for (unsigned i = 0; i < n; i++) it[i] = (struct c16_item){ C16_K_M_U64, 0, 0, 0, c[i], 0 };
+		ev_items(it, rs, n);
+		for (unsigned i = 0; i < n; i++) {
+			pop[i] = rs[i].v[0]; lssb[i] = rs[i].v[1];
+			if (rs[i].status != C16_S_OK) { pop[i].neg = lssb[i].neg = 1; pop[i].bits = lssb[i].bits = 0x8000000000000000ULL; lane_faults++; }
 		}
-		return;
 	}
-	selfcheck();
+	for (unsigned i = 0; i < n; i++) {
+		int wp = c16j_pop64(c[i]), wl = c16j_lssb64(c[i]);
+		int bp = !(pop[i].neg == 0 && pop[i].bits == (unsigned long long)wp);
+		int bl = !(lssb[i].neg == (wl < 0) && lssb[i].bits == (unsigned long long)(long long)wl);
+		if (bp) { lane_bad[0]++; if (!lane_first_set[0]) { lane_first_set[0] = 1; lane_first[0] = c[i]; } }
+		if (bl) { lane_bad[1]++; if (!lane_first_set[1]) { lane_first_set[1] = 1; lane_first[1] = c[i]; } }
+		if (!bp && !bl) { unsigned idx = (unsigned)wp * 66 + (unsigned)(wl + 1); if (!lane_seen[idx]) { lane_seen[idx] = 1; lane_distinct++; } }
+	}
+}
+#endif
+
+static void macros_main(void)
+{
+	uint64_t results = 0, tab = 0, bad_ct[C16_NM] = { 0, 0 }, bad_agree[C16_NM] = { 0, 0 };
 	int complete = 1;
+	c16_distinct = 0;
 
-	/* (a) structured patterns at run time */
-	structured(kmax, visit_check, NULL);
-	fold_seen();
-	vx_count("structured_patterns_runtime", structured_mine);
-	evals[M_POP] += structured_mine; evals[M_LSSB] += structured_mine;
+	/* (a) run-time families */
+	run_family("macro_structured_rt", fam_m_structured, &results);
+	run_family("macro_typed_rt", fam_m_typed, &results);
+	run_family("macro_expr_rt", fam_m_ops, &results);
 
-	/* (c) compile-time table */
-	uint64_t tab = 0;
-	for (unsigned i = 0; i < NTABLE; i++) {
-		if (!vx_mine(i >> 4)) continue;
-		for (int m = 0; m < NM; m++) {
-			int r = check_table(i, m, 0);
-			if (r & 1) bad_ct[m]++;
-			if (r & 2) bad_agree[m]++;
-		}
-		tab++;
-		if (vx_want_sample() && i % 1201 == 5)
-			vx_sample("table #%u K=0x%016llx: const_pop(K)=%lld const_lssb(K)=%lld as constants; %lld %lld at run time", i,
-				  (unsigned long long)c16_table[i].k, (long long)c16_val(c16_table[i].ct[0]), (long long)c16_val(c16_table[i].ct[1]),
-				  (long long)rt_pop(c16_table[i].k), (long long)rt_lssb(c16_table[i].k));
-	}
-	vx_count("table_constants_compile_time", tab);
-	vx_max("table_size", NTABLE);
-
-	/* (b) lanes */
-	int nshift = vx_thorough() ? 1 : 2, wbits = vx_thorough() ? 32 : 24;
-	static const int shifts[2] = { 0, 8 };
-	int bbits = 20;						/* work unit: 2^20 arguments */
-	uint64_t units_per = 1ULL << (wbits - bbits), unit = 0, lane_evals = 0, units_done = 0;
-	for (int lane = 0; lane < NLANES && complete; lane++)
-		for (int si = 0; si < nshift && complete; si++)
-			for (uint64_t u = 0; u < units_per; u++, unit++) {
-				if (!vx_mine(unit)) continue;
-				if (vx_deadline_passed()) { complete = 0; break; }
-				uint64_t w0 = u << bbits;
-				for (uint64_t w = w0; w < w0 + (1ULL << bbits); w++)
-					check_rt(lane_value(lane, (uint32_t)(w << shifts[si])));
-				lane_evals += 1ULL << bbits; units_done++;
-				fold_seen();
-				if (vx_want_sample() && unit % (vx_thorough() ? 4681 : 37) == 11) {
-					uint64_t c = lane_value(lane, (uint32_t)((w0 + 0x5a5a5u) << shifts[si]));
-					char ln[96]; lane_name(lane, ln, sizeof(ln));
-					vx_sample("lane %d (%s) c=0x%016llx: const_pop=%lld const_lssb=%lld (run time)", lane, ln,
-						  (unsigned long long)c, (long long)rt_pop(c), (long long)rt_lssb(c));
-				}
+	/* (b) the compile-time table */
+	if (tab_n() != C16_NMMETA) {
+#ifdef C16_PART_ILP32
+		if (!C16_ILP32_TABLE_OK) vx_note("ILP32 compile-time table left out: %s", C16_ILP32_NOTE);
+		else
+#endif
+		{ fprintf(stderr, "c16: the table of the user unit has %u entries, the harness expects %u\n", tab_n(), (unsigned)C16_NMMETA); _exit(3); }
+		complete = 0;
+	} else {
+		for (unsigned i = 0; i < tab_n() && !ev_abandoned; i++) {
+			if (!vx_mine(i >> 4)) continue;
+			for (int m = 0; m < C16_NM; m++) {
+				int r = check_table(i, m, 0);
+				if (r & 1) bad_ct[m]++;
+				if (r & 2) bad_agree[m]++;
 			}
-	evals[M_POP] += lane_evals; evals[M_LSSB] += lane_evals;
-	vx_count("lane_arguments_runtime", lane_evals);
-	vx_count("lane_units_of_2^20_done", units_done);
+			tab++;
+			if (vx_args.worker == 0 && vx_want_sample() && i % 1201 == 5 + 16 * (i / 1201 % 2)) {
+				uint64_t cc; __int128 ct[C16_NM]; char a[48], b[48];
+				tab_get(i, &cc, ct);
+				vx_sample("table #%u: const_pop(%s) = %s and const_lssb(%s) = %s as constants" C16_TAG, i, c16_mmeta[i].text, c16_num(ct[0], a),
+					  c16_mmeta[i].text, c16_num(ct[1], b));
+			}
+		}
+	}
+	c16_count("table_constants_compile_time", tab);
+	c16_max("table_size", tab_n());
 
-	vx_count("evaluations", evals[M_POP] + evals[M_LSSB] + 2 * tab);
-	vx_count("distinct", distinct_tagged);
-	vx_max("distinct_result_tuples_within_one_worker_max", distinct_untagged);
-	for (int m = 0; m < NM; m++) {
+	/* (c) lanes */
+#ifndef C16_PART_ILP32
+	{
+#ifdef C16_VARIANT_BUILD
+		int nshift = vx_thorough() ? 2 : 3, wbits = vx_thorough() ? 24 : 16;
+#else
+		int nshift = vx_thorough() ? 1 : 2, wbits = vx_thorough() ? 32 : 24;
+#endif
+		static const int shifts[3] = { 0, 8, 16 };
+		int bbits = wbits < 20 ? wbits : 20;			/* work unit: 2^20 (2^16) arguments */
+		uint64_t units_per = 1ULL << (wbits - bbits), unit = 0, lane_evals = 0, units_done = 0;
+		static uint64_t cbuf[LANE_CHUNK];
+		for (int lane = 0; lane < NLANES && complete; lane++)
+			for (int si = 0; si < nshift && complete; si++)
+				for (uint64_t u = 0; u < units_per; u++, unit++) {
+					if (!vx_mine(unit)) continue;
+					if (vx_deadline_passed() || ev_abandoned) { complete = 0; break; }
+					uint64_t w0 = u << bbits;
+					for (uint64_t w = w0; w < w0 + (1ULL << bbits); w += LANE_CHUNK) {
+						for (unsigned i = 0; i < LANE_CHUNK; i++) cbuf[i] = lane_value(lane, (uint32_t)((w + i) << shifts[si]));
+						lane_chunk(cbuf, LANE_CHUNK);
+					}
+					lane_evals += 1ULL << bbits; units_done++;
+					c16_distinct += lane_distinct; lane_distinct = 0; memset(lane_seen, 0, sizeof(lane_seen));
+					if (vx_args.worker == 0 && vx_nsamples < 8 && unit % 16 == 0 && unit / 16 % 5 == 1) {
+						uint64_t c = lane_value(lane, (uint32_t)((w0 + 0x5a5a5u) << shifts[si]));
+						struct c16_item it = { C16_K_M_U64, 0, 0, 0, c, 0 }; struct c16_res rs;
+						ev_items(&it, &rs, 1);
+						vx_sample("lane %d (%s half sweeps, the other half = 0x%08x) c=0x%016llx: const_pop=%lld const_lssb=%lld (run time)",
+							  lane, lane < 4 ? "low" : "high", lane_boundary[lane & 3], (unsigned long long)c,
+							  (long long)rs.v[0].bits, (long long)rs.v[1].bits);
+					}
+				}
+		results += 2 * lane_evals;
+		c16_count("lane_arguments_runtime", lane_evals);
+		c16_count("lane_units_done", units_done);
+		c16_count("lane_faults", lane_faults);
+		for (int m = 0; m < C16_NM; m++) { char nm[64]; snprintf(nm, sizeof(nm), "mismatches_runtime_lanes_%s", c16_mname[m]); c16_count(nm, lane_bad[m]); }
+		vx_note("macros: 2^64 arguments cannot be enumerated; covered sub-spaces: every %d-or-fewer-bit pattern, every contiguous mask, "
+			"their complements, 8 lanes (one 32-bit half sweeping all 2^%d values at %d alignments, the other in "
+			"{0,1,0x80000000,0xffffffff}), and the argument-form families", m_kmax(), wbits, nshift);
+	}
+#else
+	vx_note("ILP32 macros: every 3-or-fewer-bit pattern, every contiguous mask, their complements and the argument-form families at run "
+		"time in the -m32 helper; the compile-time table read back from the -m32 object; no lanes");
+#endif
+
+	c16_count("evaluations", results + 2 * tab);
+	c16_count("distinct", c16_distinct);
+	for (int m = 0; m < C16_NM; m++) {
 		char nm[64];
-		snprintf(nm, sizeof(nm), "evals_runtime_%s", mname[m]); vx_count(nm, evals[m]);
-		snprintf(nm, sizeof(nm), "mismatches_runtime_%s", mname[m]); vx_count(nm, bad_rt[m]);
-		snprintf(nm, sizeof(nm), "mismatches_constant_%s", mname[m]); vx_count(nm, bad_ct[m]);
-		snprintf(nm, sizeof(nm), "mismatches_constant_vs_runtime_%s", mname[m]); vx_count(nm, bad_agree[m]);
+		snprintf(nm, sizeof(nm), "mismatches_constant_%s", c16_mname[m]); c16_count(nm, bad_ct[m]);
+		snprintf(nm, sizeof(nm), "mismatches_constant_vs_runtime_%s", c16_mname[m]); c16_count(nm, bad_agree[m]);
 	}
 	/* the 2^64 argument space of the macros is covered on sub-spaces only */
 	vx_and("exhaustive", 0);
 	vx_and("exhaustive_macros", 0);
-	vx_and("macro_subspaces_complete", complete);
-	vx_note("macros: 2^64 arguments cannot be enumerated; covered sub-spaces: every %d-or-fewer-bit pattern, every contiguous mask, "
-		"their complements, and 8 lanes (one 32-bit half sweeping %s, the other in {0,1,0x80000000,0xffffffff})", kmax,
-		vx_thorough() ? "all 2^32 values" : "all 2^24 values at shifts 0 and 8");
+	if (ev_abandoned) complete = 0;
+	vx_and("macro_subspaces_complete" C16_TAG, complete);
 
 	/* canonical witnesses */
-	for (int m = 0; m < NM; m++) {
-		if (bad_rt[m]) {
-			struct find f = { m, 0, 0 };
-			structured(kmax, visit_find, &f);
-			if (f.found) report_rt(m, f.c, "first failing structured pattern");
-			else report_rt(m, own_first[m], "no structured pattern fails; first failing lane argument of this worker");
+	for (int m = 0; m < C16_NM; m++) {
+#ifndef C16_PART_ILP32
+		if (lane_bad[m]) {	/* the structured patterns come first in the canonical order; a lane argument only if none of them fails */
+			struct c16_item it = { C16_K_M_U64, 0, 0, 0, lane_first[m], 0 };
+			struct runner *R = &c16_R;
+			memset(R, 0, sizeof(*R)); R->name = "macro_structured_rt"; R->find = 1;
+			fam_m_structured(run_emit, R); run_flush(R);
+			if (R->found) report_item(&R->first, "first failing structured pattern");
+			else report_item(&it, "no structured pattern fails; first failing lane argument of this worker");
 		}
+#endif
 		if (bad_ct[m] || bad_agree[m]) {
 			int seen_kind = 0;
-			for (unsigned i = 0; i < NTABLE && seen_kind != 3; i++) {
-				/* record only the kinds not yet witnessed by an earlier entry */
-				int r = check_table(i, m, 0) & ~seen_kind;
-				if (r) {
-					check_table(i, m, r);
-					seen_kind |= r;
-				}
+			for (unsigned i = 0; i < tab_n() && seen_kind != 3; i++) {
+				int r = check_table(i, m, 0) & ~seen_kind;	/* record only the kinds not yet witnessed by an earlier entry */
+				if (r) { check_table(i, m, r); seen_kind |= r; }
 			}
 		}
 	}
 }
-#endif /* C16_PART_MACROS */
+#endif /* C16_DO_MACROS */
+
+#ifndef C16_DO_MACROS
+static int m_kmax(void) { return 3; }
+#endif
+
+/* =========================================================================================== replay, main */
+static void replay(const char *rp)
+{
+	const char *kind = vx_replay_field(rp, "kind");
+	char kd[32]; snprintf(kd, sizeof(kd), "%s", kind ? kind : "");
+	vx_count("evaluations", 1);
+	if (!strcmp(kd, "item")) {
+		struct c16_item it; const char *s;
+		memset(&it, 0, sizeof(it));
+		if ((s = vx_replay_field(rp, "k"))) it.kind = (uint32_t)strtoul(s, NULL, 0);
+		if ((s = vx_replay_field(rp, "idx"))) it.idx = (uint32_t)strtoul(s, NULL, 0);
+		if ((s = vx_replay_field(rp, "f"))) it.f = (uint32_t)strtoul(s, NULL, 0);
+		if ((s = vx_replay_field(rp, "a"))) it.a = strtoull(s, NULL, 0);
+		if ((s = vx_replay_field(rp, "b"))) it.b = strtoull(s, NULL, 0);
+		if (!(c16_is_f(it.kind) || c16_is_m(it.kind))) return;
+#ifndef C16_DO_FUNCS
+		if (c16_is_f(it.kind)) return;
+#endif
+#ifndef C16_DO_MACROS
+		if (c16_is_m(it.kind)) return;
+#endif
+		report_item(&it, "replay");
+	}
+#ifdef C16_DO_MACROS
+	else if (!strcmp(kd, "table")) {
+		const char *s = vx_replay_field(rp, "i");
+		unsigned i = s ? (unsigned)strtoul(s, NULL, 0) : 0;
+		int m = (s = vx_replay_field(rp, "m")) ? atoi(s) : 0;
+		char arg[256]; snprintf(arg, sizeof(arg), "%s", (s = vx_replay_field(rp, "arg")) ? s : "");
+		if (tab_n() != C16_NMMETA || m < 0 || m >= C16_NM) return;
+		if (i >= C16_NMMETA || strcmp(c16_mmeta[i].text, arg)) {	/* the table was regenerated differently: find the argument by its text */
+			for (i = 0; i < C16_NMMETA && strcmp(c16_mmeta[i].text, arg); i++) {}
+			if (i >= C16_NMMETA) return;
+		}
+		check_table(i, m, 3);
+	}
+#endif
+}
 
 int main(int argc, char **argv)
 {
 	vx_init(argc, argv);
 	vx_install_handlers();
 	vx_watchdog(2.0);
-	part_main();
+	signal(SIGPIPE, SIG_IGN);
+	ev_start();
+#ifdef C16_PART_ILP32
+	if (rem_pid <= 0) rem_unusable = 1;
+	else { unsigned b; int s; ev_type_info(0, &b, &s); if (!b) rem_unusable = 1; }
+	if (rem_unusable) {	/* only the table read back from the object file is left */
+		vx_note("ILP32: the -m32 helper %s; only the compile-time table is checked (%s)",
+			access(C16_ILP32_BIN, X_OK) ? "was not built" : "cannot be run here", C16_ILP32_NOTE);
+		ev_abandoned = 1;
+		vx_and("exhaustive", 0);
+	}
+#endif
+	char *rp = vx_read_replay();
+	if (rp) { replay(rp); ev_stop(); vx_finish(); return 0; }
+	c16_selfcheck();
+#ifdef C16_PART_ILP32
+	if (!rem_unusable)
+#endif
+#ifdef C16_DO_FUNCS
+	funcs_main();
+#endif
+#ifdef C16_DO_MACROS
+	macros_main();
+#endif
+	c16_count("faults_total", ev_faults);
+	if (ev_abandoned) vx_note("enumeration stopped early after repeated hangs or helper failures: the run is incomplete" C16_TAG);
+	ev_stop();
 	vx_finish();
 	return 0;
 }
